@@ -10,22 +10,14 @@
    direction (<f>_succeeds) for mint, local burn, ESDT burn and NFT create.
    Everything is for an arbitrary [E : env] with [codec_ok (cdc E)]; [no_faults E] only for liveness. *)
 From EV Require Import Base.Bytes Base.Store Base.Monad gen.Consts Codec.Types Helpers.Helpers
-  Ledger.Types Ledger.Env Ledger.Funcs Ledger.Transfers LedgerProofs.Defs LedgerProofs.EnvSpec.
+  Ledger.Types Ledger.Env Ledger.Funcs Ledger.Transfers LedgerProofs.Defs LedgerProofs.EnvSpec
+  LedgerProofs.Spec_Transfers_Base.
 
 (* ================================================================== *)
 (* 0. Preliminaries                                                    *)
 (* ================================================================== *)
-(* the n-th argument of the call ([] when absent) *)
-Definition argn (i : input) (n : nat) : bytes := nth n (i_args i) [].
-
-Lemma nth_error_argn i n x : nth_error (i_args i) n = Some x -> argn i n = x.
-Proof. intros H. unfold argn. apply nth_error_nth. exact H. Qed.
-Lemma argn_nth_error i n : (N.of_nat n < alen (i_args i))%N -> nth_error (i_args i) n = Some (argn i n).
-Proof.
-  intros H. unfold alen in H. destruct (nth_error (i_args i) n) as [x|] eqn:En.
-  - rewrite (nth_error_argn _ _ _ En). reflexivity.
-  - apply nth_error_None in En. lia.
-Qed.
+(* [argn i n] = the n-th argument of the call ([] when absent), [lookup_consistent], [touches]: shared with the
+   transfer specs (Spec_Transfers_Base.v) *)
 Lemma arg_argn i n s x s' : arg (i_args i) n s = (Ok x, s') ->
   x = argn i (N.to_nat n) /\ (n < alen (i_args i))%N /\ s' = s.
 Proof. intros H. apply arg_ok in H as (H & Hl & ->). rewrite (nth_error_argn _ _ _ H). auto. Qed.
@@ -136,12 +128,18 @@ Section Spec.
                      else Some (set_value t (Some (balance E s a key + delta)%Z)));
     fe_frozen_paused : rae = false -> a <> SC -> frozen_at E s a key = false /\ paused_at s key = false;
     fe_frame : unchanged_except (fun a' k' => a' = a /\ k' = key) (fun _ => False) s s';
+    fe_touches : touches [a] s s';               (* only account a was written (form for sums over accounts) *)
     fe_nofault : nofault E s s' }.
 
   Lemma rd_add_to_esdt_balance a key delta rae s s1 u s' :
     rd E s s1 -> add_to_esdt_balance E a key delta rae s1 = (Ok u, s') -> fungible_effect a key delta rae s s'.
   Proof.
-    intros Hr H. apply (add_to_esdt_balance_ok E Hc) in H as (H1 & H2 & (t & Ht & Hwf & Hty & Hv & Hta) & H4 & H5 & H6).
+    intros Hr H.
+    assert (Hto : touches [a] s s').
+    { pose proof (add_to_esdt_balance_inv E Hc _ _ _ _ _ _ _ H) as (t & v & _ & _ & _ & _ & _ & _ & Hw).
+      eapply touches_trans; [apply (touches_rd E _ _ _ Hr)|].
+      eapply (touches_wr E); [repeat constructor; simpl; tauto|left; reflexivity|exact Hw]. }
+    apply (add_to_esdt_balance_ok E Hc) in H as (H1 & H2 & (t & Ht & Hwf & Hty & Hv & Hta) & H4 & H5 & H6).
     rewrite (rd_balance _ _ _ a key Hr) in *. rewrite (rd_tod _ _ _ a key Hr) in Ht.
     rewrite (rd_frozen_at _ _ _ a key Hr), (rd_paused_at _ _ _ key Hr) in H4.
     constructor; auto.
@@ -249,4 +247,1213 @@ Section Spec.
     - apply negb_ltb_le. exact Hg.
     - eapply rd_add_to_esdt_balance; [apply rd_refl|eauto].
   Qed.
+
+  (* ================================================================== *)
+  (* 4. ESDTNFTCreate                                                    *)
+  (* ================================================================== *)
+  (* gas used, the nonce given to the new token, the stored entry *)
+  Definition create_use (i : input) : N :=
+    u64 (u64 (total_len (i_args i) * g_StorePerByte G) + g_ESDTNFTCreate G).
+  Definition create_nonce (i : input) (s : mstate) : N := u64 (counter_at s (i_caller i) (argn i 0) + 1).
+  Definition created_token (i : input) (s : mstate) : token :=
+    {| t_type := C.NonFungible; t_value := Some (bigZ (argn i 1)); t_props := [];
+       t_meta := Some {| md_nonce := create_nonce i s; md_name := argn i 2; md_creator := i_caller i;
+                         md_royalties := u32 (bigU64 (argn i 3)); md_hash := argn i 4;
+                         md_uris := skipn 6 (i_args i); md_attributes := argn i 5 |};
+       t_reserved := [] |}.
+  Lemma wf_created_token i s : wf_token (created_token i s).
+  Proof.
+    split; [vm_compute; reflexivity|]. split; [apply u64_lt|apply u32_lt].
+  Qed.
+
+  Lemma wr_two_frame a k1 v1 k2 v2 s s1 s' : wr E a k1 v1 s s1 -> wr E a k2 v2 s1 s' ->
+    unchanged_except (fun a' k' => a' = a /\ (k' = k1 \/ k' = k2)) (fun _ => False) s s'.
+  Proof.
+    intros H1 H2. eapply unchanged_except_trans.
+    - eapply unchanged_except_weaken; [| |apply (wr_unchanged _ _ _ _ _ _ H1)]; [|auto]. intros a' k' [? ?]. auto.
+    - eapply unchanged_except_weaken; [| |apply (wr_unchanged _ _ _ _ _ _ H2)]; [|auto]. intros a' k' [? ?]. auto.
+  Qed.
+
+  Record nft_create_post (i : input) (s : mstate) (o : output) (s' : mstate) : Prop := {
+    (* guards *)
+    nc_value : i_value i = 0%Z;
+    nc_nargs : (7 <= alen (i_args i))%N;
+    nc_self : i_caller i = i_rcpt i;
+    nc_snd : i_snd i = true;
+    nc_gas_base : (g_ESDTNFTCreate G <= i_gas i)%N;
+    nc_gas : (create_use i <= i_gas i)%N;
+    nc_role : has_role E s (i_caller i) (argn i 0) C.ESDTRoleNFTCreate = true;
+    nc_royalties : (u32 (bigU64 (argn i 3)) <= C.MaxRoyalty)%N;
+    nc_quantity_pos : (0 < bigZ (argn i 1))%Z;
+    nc_role_quantity : (1 < bigZ (argn i 1))%Z ->
+                       has_role E s (i_caller i) (argn i 0) C.ESDTRoleNFTAddQuantity = true;
+    (* the new entry has no property bits, so only the pause flags matter *)
+    nc_paused : i_rae i = false -> i_caller i <> SC ->
+                paused_at s (P ++ argn i 0) = false
+                /\ paused_at s (nft_key (P ++ argn i 0) (create_nonce i s)) = false;
+    (* effects: two cells of the caller: the entry under the next nonce, and the counter *)
+    nc_wf : wf_token (created_token i s);
+    nc_entry : tok_at E s' (i_caller i) (nft_key (P ++ argn i 0) (create_nonce i s)) = Some (created_token i s);
+    nc_balance : balance E s' (i_caller i) (nft_key (P ++ argn i 0) (create_nonce i s)) = bigZ (argn i 1);
+    nc_counter : counter_at s' (i_caller i) (argn i 0) = create_nonce i s;
+    nc_frame : unchanged_except
+                 (fun a k => a = i_caller i /\ (k = nft_key (P ++ argn i 0) (create_nonce i s) \/ k = NP ++ argn i 0))
+                 (fun _ => False) s s';
+    nc_touches : touches [i_caller i] s s';
+    nc_nofault : nofault E s s';
+    nc_out : o = add_log (set_returnData (mk_out C.Ok (sub64 (i_gas i) (create_use i))) [u64_bytes (create_nonce i s)])
+                         (log_nft C.BuiltInFunctionESDTNFTCreate (i_caller i) (argn i 0) (create_nonce i s)
+                                  [enc_tok (cdc E) (created_token i s)]);
+    nc_retdata : o_returnData o = [u64_bytes (create_nonce i s)] }.
+
+  Lemma f_nft_create_spec i s o s' : f_nft_create E i s = (Ok o, s') -> nft_create_post i s o s'.
+  Proof.
+    unfold f_nft_create. intros H. cbv zeta in H.
+    bnd H as u1 s1 H1. apply check_create_burn_add_ok in H1 as (-> & Hv & _ & Hcr & Hsnd & Hg0).
+    bnd H as u2 s1 H1. apply guard_ok in H1 as [Hl ->]. apply negb_ltb_le in Hl.
+    bnd H as tok s1 H1. apply arg_argn in H1 as (-> & _ & ->).
+    bnd H as u3 s1 H1. apply check_allowed_ok in H1 as (_ & Hrole & Hrd1).
+    bnd H as n s2 H2. apply get_latest_nonce_ok in H2 as [-> ->].
+    rewrite (rd_counter_at _ _ _ (i_caller i) _ Hrd1) in H.
+    bnd H as u4 s2 H2. apply guard_ok in H2 as [Hg ->]. apply negb_ltb_le in Hg.
+    bnd H as a3 s2 H2. apply arg_argn in H2 as (-> & _ & ->).
+    bnd H as u5 s2 H2. apply guard_ok in H2 as [Hroy ->]. apply negb_ltb_le in Hroy.
+    bnd H as a1 s2 H2. apply arg_argn in H2 as (-> & _ & ->).
+    bnd H as u6 s2 H2. apply guard_ok in H2 as [Hq ->].
+    bnd H as u7 s2 H2.
+    assert (Hrd2 : rd E s s2 /\ ((1 < bigZ (argn i (N.to_nat 1)))%Z ->
+                                 has_role E s (i_caller i) (argn i (N.to_nat 0)) C.ESDTRoleNFTAddQuantity = true)).
+    { destruct (1 <? bigZ (argn i (N.to_nat 1)))%Z eqn:E1.
+      - apply check_allowed_ok in H2 as (_ & Hrole2 & Hrd2).
+        rewrite (rd_has_role _ _ _ _ _ _ Hrd1) in Hrole2. split; [eapply rd_trans; eauto|auto].
+      - apply ret_ok in H2 as [_ ->]. split; [exact Hrd1|]. intros. lia. }
+    destruct Hrd2 as [Hrd2 Hrole2]. clear H2 Hrd1.
+    bnd H as a2 s3 H3. apply arg_argn in H3 as (-> & _ & ->).
+    bnd H as a4 s3 H3. apply arg_argn in H3 as (-> & _ & ->).
+    bnd H as a5 s3 H3. apply arg_argn in H3 as (-> & _ & ->).
+    bnd H as uris s3 H3. apply args_from_ok in H3 as (_ & -> & ->).
+    argnorm.
+    bnd H as b s3 H3.
+    bnd H as u8 s4 H4. apply ret_ok in H as [-> <-].
+    fold (create_nonce i s) in *. fold (create_use i) in *. fold (created_token i s) in *.
+    pose proof (wf_created_token i s) as Hwf.
+    apply save_nft_ok in H3 as (v & Hval & -> & Hw1 & Hfp).
+    change (tok_nonce (created_token i s)) with (create_nonce i s) in *.
+    change (t_value (created_token i s)) with (Some (bigZ (argn i 1))) in Hval. inversion Hval; subst v. clear Hval.
+    assert (Hq' : (0 < bigZ (argn i 1))%Z) by lia.
+    destruct (bigZ (argn i 1) <=? 0)%Z eqn:Eq; [lia|].
+    apply save_latest_nonce_ok in H4 as [Hw2 Hcnt].
+    pose proof (rd_wr _ _ _ _ _ _ _ Hrd2 Hw1) as Hw1'.
+    assert (Hne : nft_key (P ++ argn i 0) (create_nonce i s) <> NP ++ argn i 0) by apply nft_key_NP_disjoint.
+    assert (Hent : tok_at E s' (i_caller i) (nft_key (P ++ argn i 0) (create_nonce i s)) = Some (created_token i s)).
+    { rewrite (wr_tok_at_other _ _ _ _ _ _ _ _ Hw2) by (right; exact Hne).
+      eapply wr_tok_at_enc; eauto. }
+    constructor; auto.
+    - intros h1 h2. destruct (Hfp h1 h2) as (_ & P1 & P2).
+      rewrite <- (rd_paused_at _ _ _ _ Hrd2), <- (rd_paused_at _ _ _ (nft_key _ _) Hrd2). auto.
+    - rewrite (balance_tok_at _ _ _ _ _ Hent). reflexivity.
+    - rewrite Hcnt. apply u64_small. apply u64_lt.
+    - eapply wr_two_frame; eauto.
+    - assert (HL : NoDup [i_caller i]) by (repeat constructor; simpl; tauto).
+      eapply touches_trans; eapply (touches_wr E); eauto; left; reflexivity.
+    - eapply nofault_trans; [apply (wr_nofault _ _ _ _ _ _ Hw1')|apply (wr_nofault _ _ _ _ _ _ Hw2)].
+  Qed.
+
+  (* ================================================================== *)
+  (* 5. The four functions that rewrite an existing NFT entry            *)
+  (* ================================================================== *)
+  Lemma wf_meta_of t m : wf_token t -> t_meta t = Some m -> wf_metadata m.
+  Proof. unfold wf_token. intros [_ H] Hm. rewrite Hm in H. exact H. Qed.
+  Lemma wf_set_meta t m' : wf_token t -> wf_metadata m' -> wf_token (set_meta t (Some m')).
+  Proof. unfold wf_token. intros [H _] Hm. split; [exact H|exact Hm]. Qed.
+
+  (* [nft_update a key nonce t m t' rae s s']: the entry t (metadata m) was found under nft_key key nonce and the
+     entry t' was stored -- under the nonce recorded IN THE METADATA, [md_nonce m] (finding F4b: it need not be
+     the requested nonce); the entry is deleted when the value of t' is not positive *)
+  Record nft_update (a key : bytes) (nonce : N) (t : token) (m : metadata) (t' : token) (rae : bool)
+         (s s' : mstate) : Prop := {
+    nu_nonce : nonce <> 0%N;
+    nu_found : tok_at E s a (nft_key key nonce) = Some t;
+    nu_wf : wf_token t;
+    nu_meta : t_meta t = Some m;
+    nu_wf' : wf_token t';
+    nu_value' : t_value t' <> None;
+    nu_frozen_paused : rae = false -> a <> SC ->
+        frozen_at E s a (nft_key key nonce) = false /\ paused_at s key = false
+        /\ paused_at s (nft_key key (md_nonce m)) = false;
+    nu_stored : tok_at E s' a (nft_key key (md_nonce m)) = (if (val_or_0 t' <=? 0)%Z then None else Some t');
+    nu_balance : balance E s' a (nft_key key (md_nonce m)) = Z.max 0 (val_or_0 t');
+    nu_frame : unchanged_except (fun a' k' => a' = a /\ k' = nft_key key (md_nonce m)) (fun _ => False) s s';
+    nu_touches : touches [a] s s';
+    nu_nofault : nofault E s s' }.
+
+  Lemma nft_found a key nonce s s1 t s2 :
+    rd E s s1 -> get_nft_on_sender E a key nonce s1 = (Ok t, s2) -> nonce <> 0%N ->
+    rd E s s2 /\ wf_token t /\ tok_at E s a (nft_key key nonce) = Some t /\ exists m, t_meta t = Some m.
+  Proof.
+    intros Hr H Hn. apply (get_nft_on_sender_ok E Hc) in H as (Hr2 & Hwf & Ht & Hm & _).
+    split; [eapply rd_trans; eauto|]. split; [exact Hwf|].
+    split; [rewrite <- (rd_tok_at _ _ _ a _ Hr); exact Ht|]. apply Hm. lia.
+  Qed.
+
+  Lemma save_nft_update a key nonce t m t' rae s s2 b s' :
+    nonce <> 0%N -> rd E s s2 -> tok_at E s a (nft_key key nonce) = Some t -> wf_token t -> t_meta t = Some m ->
+    wf_token t' -> tok_nonce t' = md_nonce m -> t_props t' = t_props t ->
+    save_nft E a key t' rae s2 = (Ok b, s') ->
+    nft_update a key nonce t m t' rae s s'
+    /\ b = (if (val_or_0 t' <=? 0)%Z then [] else enc_tok (cdc E) t').
+  Proof.
+    intros Hn Hr Ht Hwf Hm Hwf' Hno Hpr H.
+    pose proof (save_nft_tok_at E Hc _ _ _ _ _ _ _ Hwf' H) as Hst.
+    pose proof (save_nft_balance E Hc _ _ _ _ _ _ _ Hwf' H) as Hb.
+    apply save_nft_ok in H as (v' & Hv' & -> & Hw & Hfp).
+    rewrite Hno in *. rewrite Hpr in Hfp.
+    pose proof (rd_wr _ _ _ _ _ _ _ Hr Hw) as Hw'.
+    split.
+    - constructor; auto.
+      + congruence.
+      + intros h1 h2. destruct (Hfp h1 h2) as (F1 & P1 & P2). unfold frozen_at. rewrite Ht.
+        rewrite <- (rd_paused_at _ _ _ key Hr), <- (rd_paused_at _ _ _ (nft_key _ _) Hr). auto.
+      + apply (wr_unchanged _ _ _ _ _ _ Hw').
+      + eapply (touches_wr E); [repeat constructor; simpl; tauto|left; reflexivity|exact Hw'].
+      + apply (wr_nofault _ _ _ _ _ _ Hw').
+    - unfold val_or_0. rewrite Hv'. reflexivity.
+  Qed.
+
+  (* ---------------- ESDTNFTAddQuantity ---------------- *)
+  Record nft_add_quantity_post (i : input) (s : mstate) (o : output) (s' : mstate)
+         (t : token) (m : metadata) (v : Z) : Prop := {
+    aq_value : i_value i = 0%Z;
+    aq_nargs : (3 <= alen (i_args i))%N;
+    aq_self : i_caller i = i_rcpt i;
+    aq_snd : i_snd i = true;
+    aq_gas : (g_ESDTNFTAddQuantity G <= i_gas i)%N;
+    aq_role : has_role E s (i_caller i) (argn i 0) C.ESDTRoleNFTAddQuantity = true;
+    aq_entry_value : t_value t = Some v;
+    aq_update : nft_update (i_caller i) (P ++ argn i 0) (bigU64 (argn i 1)) t m
+                           (set_value t (Some (v + bigZ (argn i 2))%Z)) (i_rae i) s s';
+    aq_out : o = add_log (mk_out C.Ok (sub64 (i_gas i) (g_ESDTNFTAddQuantity G)))
+                         (log_nft C.BuiltInFunctionESDTNFTAddQuantity (i_caller i) (argn i 0) (bigU64 (argn i 1)) []) }.
+
+  Lemma f_nft_add_quantity_spec i s o s' : f_nft_add_quantity E i s = (Ok o, s') ->
+    exists t m v, nft_add_quantity_post i s o s' t m v.
+  Proof.
+    unfold f_nft_add_quantity. intros H. cbv zeta in H.
+    bnd H as u1 s1 H1. apply check_create_burn_add_ok in H1 as (-> & Hv & _ & Hcr & Hsnd & Hg0).
+    bnd H as u2 s1 H1. apply guard_ok in H1 as [Hl ->]. apply negb_ltb_le in Hl.
+    bnd H as tok s1 H1. apply arg_argn in H1 as (-> & _ & ->).
+    bnd H as u3 s1 H1. apply check_allowed_ok in H1 as (_ & Hrole & Hrd1).
+    bnd H as a1 s2 H2. apply arg_argn in H2 as (-> & _ & ->).
+    bnd H as u4 s2 H2. apply guard_ok in H2 as [Hn ->].
+    assert (Hn' : bigU64 (argn i (N.to_nat 1)) <> 0%N) by (intros Hz; rewrite Hz in Hn; discriminate).
+    bnd H as t s2 H2. apply (nft_found _ _ _ _ _ _ _ Hrd1) in H2 as (Hrd2 & Hwf & Ht & (m & Hm)); [|exact Hn'].
+    bnd H as v s3 H3. apply val_of_ok in H3 as [Hval ->].
+    bnd H as a2 s3 H3. apply arg_argn in H3 as (-> & _ & ->). argnorm.
+    bnd H as b s3 H3. apply ret_ok in H as [-> <-].
+    eapply save_nft_update in H3 as [Hu _]; eauto.
+    2: { unfold tok_nonce. simpl. rewrite Hm. reflexivity. }
+    exists t, m, v. constructor; auto.
+  Qed.
+
+  (* ---------------- ESDTNFTBurn ---------------- *)
+  Record nft_burn_post (i : input) (s : mstate) (o : output) (s' : mstate)
+         (t : token) (m : metadata) (v : Z) : Prop := {
+    nb_value : i_value i = 0%Z;
+    nb_nargs : (3 <= alen (i_args i))%N;
+    nb_self : i_caller i = i_rcpt i;
+    nb_snd : i_snd i = true;
+    nb_gas : (g_ESDTNFTBurn G <= i_gas i)%N;
+    nb_role : has_role E s (i_caller i) (argn i 0) C.ESDTRoleNFTBurn = true;
+    nb_entry_value : t_value t = Some v;
+    nb_enough : (bigZ (argn i 2) <= v)%Z;          (* quantity burnt <= quantity held *)
+    nb_update : nft_update (i_caller i) (P ++ argn i 0) (bigU64 (argn i 1)) t m
+                           (set_value t (Some (v - bigZ (argn i 2))%Z)) (i_rae i) s s';
+    nb_out : o = add_log (mk_out C.Ok (sub64 (i_gas i) (g_ESDTNFTBurn G)))
+                         (log_nft C.BuiltInFunctionESDTNFTBurn (i_caller i) (argn i 0) (bigU64 (argn i 1)) []) }.
+
+  Lemma f_nft_burn_spec i s o s' : f_nft_burn E i s = (Ok o, s') ->
+    exists t m v, nft_burn_post i s o s' t m v.
+  Proof.
+    unfold f_nft_burn. intros H. cbv zeta in H.
+    bnd H as u1 s1 H1. apply check_create_burn_add_ok in H1 as (-> & Hv & _ & Hcr & Hsnd & Hg0).
+    bnd H as u2 s1 H1. apply guard_ok in H1 as [Hl ->]. apply negb_ltb_le in Hl.
+    bnd H as tok s1 H1. apply arg_argn in H1 as (-> & _ & ->).
+    bnd H as u3 s1 H1. apply check_allowed_ok in H1 as (_ & Hrole & Hrd1).
+    bnd H as a1 s2 H2. apply arg_argn in H2 as (-> & _ & ->).
+    bnd H as u4 s2 H2. apply guard_ok in H2 as [Hn ->].
+    assert (Hn' : bigU64 (argn i (N.to_nat 1)) <> 0%N) by (intros Hz; rewrite Hz in Hn; discriminate).
+    bnd H as t s2 H2. apply (nft_found _ _ _ _ _ _ _ Hrd1) in H2 as (Hrd2 & Hwf & Ht & (m & Hm)); [|exact Hn'].
+    bnd H as v s3 H3. apply val_of_ok in H3 as [Hval ->].
+    bnd H as a2 s3 H3. apply arg_argn in H3 as (-> & _ & ->). argnorm.
+    bnd H as u5 s3 H3. apply guard_ok in H3 as [Hq ->].
+    bnd H as b s3 H3. apply ret_ok in H as [-> <-].
+    eapply save_nft_update in H3 as [Hu _]; eauto.
+    2: { unfold tok_nonce. simpl. rewrite Hm. reflexivity. }
+    exists t, m, v. constructor; auto. lia.
+  Qed.
+
+  (* ---------------- ESDTNFTAddURI ---------------- *)
+  Definition add_uri_store (i : input) : N := u64 (total_len (skipn 2 (i_args i)) * g_StorePerByte G).
+  Record nft_add_uri_post (i : input) (s : mstate) (o : output) (s' : mstate)
+         (t : token) (m : metadata) (v : Z) : Prop := {
+    au_value : i_value i = 0%Z;
+    au_nargs : (3 <= alen (i_args i))%N;
+    au_self : i_caller i = i_rcpt i;
+    au_snd : i_snd i = true;
+    au_gas_base : (g_ESDTNFTAddURI G <= i_gas i)%N;
+    au_gas : (u64 (g_ESDTNFTAddURI G + add_uri_store i) <= i_gas i)%N;
+    au_role : has_role E s (i_caller i) (argn i 0) C.ESDTRoleNFTAddURI = true;
+    au_entry_value : t_value t = Some v;
+    (* stored: the old entry with the new URIs (arguments 2..) appended; everything else as found *)
+    au_update : nft_update (i_caller i) (P ++ argn i 0) (bigU64 (argn i 1)) t m
+                           (set_meta t (Some (set_uris m (md_uris m ++ skipn 2 (i_args i))))) (i_rae i) s s';
+    au_out : o = add_log (mk_out C.Ok (sub64 (sub64 (i_gas i) (g_ESDTNFTAddURI G)) (add_uri_store i)))
+                         (log_nft C.BuiltInFunctionESDTNFTAddURI (i_caller i) (argn i 0) (bigU64 (argn i 1)) []) }.
+
+  Lemma f_nft_add_uri_spec i s o s' : f_nft_add_uri E i s = (Ok o, s') ->
+    exists t m v, nft_add_uri_post i s o s' t m v.
+  Proof.
+    unfold f_nft_add_uri. intros H. cbv zeta in H.
+    bnd H as u1 s1 H1. apply check_create_burn_add_ok in H1 as (-> & Hv & _ & Hcr & Hsnd & Hg0).
+    bnd H as u2 s1 H1. apply guard_ok in H1 as [Hl ->]. apply negb_ltb_le in Hl.
+    bnd H as tok s1 H1. apply arg_argn in H1 as (-> & _ & ->).
+    bnd H as u3 s1 H1. apply check_allowed_ok in H1 as (_ & Hrole & Hrd1).
+    bnd H as uris s2 H2. apply args_from_ok in H2 as (_ & -> & ->).
+    bnd H as u4 s2 H2. apply guard_ok in H2 as [Hg ->]. apply negb_ltb_le in Hg.
+    bnd H as a1 s2 H2. apply arg_argn in H2 as (-> & _ & ->).
+    bnd H as u5 s2 H2. apply guard_ok in H2 as [Hn ->].
+    assert (Hn' : bigU64 (argn i (N.to_nat 1)) <> 0%N) by (intros Hz; rewrite Hz in Hn; discriminate).
+    bnd H as t s2 H2. apply (nft_found _ _ _ _ _ _ _ Hrd1) in H2 as (Hrd2 & Hwf & Ht & (m & Hm)); [|exact Hn'].
+    bnd H as m' s3 H3. apply meta_of_ok in H3 as [Hm' ->].
+    assert (m' = m) by congruence. subst m'. clear Hm'. argnorm.
+    bnd H as b s3 H3. apply ret_ok in H as [-> <-].
+    eapply save_nft_update in H3 as [Hu _]; eauto.
+    2: { apply wf_set_meta; [exact Hwf|]. exact (wf_meta_of _ _ Hwf Hm). }
+    destruct (t_value t) as [v|] eqn:Hval.
+    2: { exfalso. apply (nu_value' _ _ _ _ _ _ _ _ _ Hu). exact Hval. }
+    exists t, m, v. constructor; auto.
+  Qed.
+
+  (* ---------------- ESDTNFTUpdateAttributes ---------------- *)
+  Definition update_attributes_store (i : input) : N := u64 (zlen (argn i 2) * g_StorePerByte G).
+  Record nft_update_attributes_post (i : input) (s : mstate) (o : output) (s' : mstate)
+         (t : token) (m : metadata) (v : Z) : Prop := {
+    ua_value : i_value i = 0%Z;
+    ua_nargs : alen (i_args i) = 3%N;
+    ua_self : i_caller i = i_rcpt i;
+    ua_snd : i_snd i = true;
+    ua_gas_base : (g_ESDTNFTUpdateAttributes G <= i_gas i)%N;
+    ua_gas : (u64 (g_ESDTNFTUpdateAttributes G + update_attributes_store i) <= i_gas i)%N;
+    ua_role : has_role E s (i_caller i) (argn i 0) C.ESDTRoleNFTUpdateAttributes = true;
+    ua_entry_value : t_value t = Some v;
+    (* stored: the old entry with the attributes replaced by argument 2; everything else as found *)
+    ua_update : nft_update (i_caller i) (P ++ argn i 0) (bigU64 (argn i 1)) t m
+                           (set_meta t (Some (set_attributes m (argn i 2)))) (i_rae i) s s';
+    ua_out : o = add_log (mk_out C.Ok (sub64 (sub64 (i_gas i) (g_ESDTNFTUpdateAttributes G)) (update_attributes_store i)))
+                         (log_nft C.BuiltInFunctionESDTNFTUpdateAttributes (i_caller i) (argn i 0) (bigU64 (argn i 1)) []) }.
+
+  Lemma f_nft_update_attributes_spec i s o s' : f_nft_update_attributes E i s = (Ok o, s') ->
+    exists t m v, nft_update_attributes_post i s o s' t m v.
+  Proof.
+    unfold f_nft_update_attributes. intros H. cbv zeta in H.
+    bnd H as u1 s1 H1. apply check_create_burn_add_ok in H1 as (-> & Hv & _ & Hcr & Hsnd & Hg0).
+    bnd H as u2 s1 H1. apply guard_ok in H1 as [Hl ->]. apply N.eqb_eq in Hl.
+    bnd H as tok s1 H1. apply arg_argn in H1 as (-> & _ & ->).
+    bnd H as u3 s1 H1. apply check_allowed_ok in H1 as (_ & Hrole & Hrd1).
+    bnd H as a2 s2 H2. apply arg_argn in H2 as (-> & _ & ->).
+    bnd H as u4 s2 H2. apply guard_ok in H2 as [Hg ->]. apply negb_ltb_le in Hg.
+    bnd H as a1 s2 H2. apply arg_argn in H2 as (-> & _ & ->).
+    bnd H as u5 s2 H2. apply guard_ok in H2 as [Hn ->].
+    assert (Hn' : bigU64 (argn i (N.to_nat 1)) <> 0%N) by (intros Hz; rewrite Hz in Hn; discriminate).
+    bnd H as t s2 H2. apply (nft_found _ _ _ _ _ _ _ Hrd1) in H2 as (Hrd2 & Hwf & Ht & (m & Hm)); [|exact Hn'].
+    bnd H as m' s3 H3. apply meta_of_ok in H3 as [Hm' ->].
+    assert (m' = m) by congruence. subst m'. clear Hm'. argnorm.
+    bnd H as b s3 H3. apply ret_ok in H as [-> <-].
+    eapply save_nft_update in H3 as [Hu _]; eauto.
+    2: { apply wf_set_meta; [exact Hwf|]. exact (wf_meta_of _ _ Hwf Hm). }
+    destruct (t_value t) as [v|] eqn:Hval.
+    2: { exfalso. apply (nu_value' _ _ _ _ _ _ _ _ _ Hu). exact Hval. }
+    exists t, m, v. constructor; auto.
+  Qed.
 End Spec.
+
+(* ================================================================== *)
+(* 6. Derived corollaries, uniform over the eight functions            *)
+(* ================================================================== *)
+Inductive supply_fn :=
+| SLocalMint | SLocalBurn | SEsdtBurn | SNftCreate | SNftAddQuantity | SNftBurn | SNftAddUri | SNftUpdateAttributes.
+
+Definition run_supply (E : env) (f : supply_fn) : input -> MT output :=
+  match f with
+  | SLocalMint => f_local_mint E | SLocalBurn => f_local_burn E | SEsdtBurn => f_esdt_burn E
+  | SNftCreate => f_nft_create E | SNftAddQuantity => f_nft_add_quantity E | SNftBurn => f_nft_burn E
+  | SNftAddUri => f_nft_add_uri E | SNftUpdateAttributes => f_nft_update_attributes E
+  end.
+Definition supply_name (f : supply_fn) : bytes :=
+  match f with
+  | SLocalMint => C.BuiltInFunctionESDTLocalMint | SLocalBurn => C.BuiltInFunctionESDTLocalBurn
+  | SEsdtBurn => C.BuiltInFunctionESDTBurn | SNftCreate => C.BuiltInFunctionESDTNFTCreate
+  | SNftAddQuantity => C.BuiltInFunctionESDTNFTAddQuantity | SNftBurn => C.BuiltInFunctionESDTNFTBurn
+  | SNftAddUri => C.BuiltInFunctionESDTNFTAddURI | SNftUpdateAttributes => C.BuiltInFunctionESDTNFTUpdateAttributes
+  end.
+(* the dispatch reaches exactly these functions under these names *)
+Lemma exec_supply E f i : exec E (supply_name f) i = run_supply E f i.
+Proof. destruct f; reflexivity. Qed.
+
+(* the role the caller must hold (None: ESDTBurn, which instead requires recipient = system contract) *)
+Definition supply_role (f : supply_fn) : option bytes :=
+  match f with
+  | SLocalMint => Some C.ESDTRoleLocalMint | SLocalBurn => Some C.ESDTRoleLocalBurn | SEsdtBurn => None
+  | SNftCreate => Some C.ESDTRoleNFTCreate | SNftAddQuantity => Some C.ESDTRoleNFTAddQuantity
+  | SNftBurn => Some C.ESDTRoleNFTBurn | SNftAddUri => Some C.ESDTRoleNFTAddURI
+  | SNftUpdateAttributes => Some C.ESDTRoleNFTUpdateAttributes
+  end.
+(* the token cell of the caller that the call is about (full storage key) *)
+Definition supply_key (f : supply_fn) (i : input) (s : mstate) : bytes :=
+  match f with
+  | SLocalMint | SLocalBurn | SEsdtBurn => P ++ argn i 0
+  | SNftCreate => nft_key (P ++ argn i 0) (create_nonce i s)
+  | _ => nft_key (P ++ argn i 0) (bigU64 (argn i 1))
+  end.
+(* all cells the call may write (all in the caller's account) *)
+Definition supply_cells (f : supply_fn) (i : input) (s : mstate) : list bytes :=
+  match f with
+  | SNftCreate => [supply_key f i s; NP ++ argn i 0]
+  | _ => [supply_key f i s]
+  end.
+(* the amount by which the caller's holding under [supply_key] moves *)
+Definition supply_delta (f : supply_fn) (i : input) : Z :=
+  match f with
+  | SLocalMint => bigZ (argn i 1) | SLocalBurn => - bigZ (argn i 1) | SEsdtBurn => - bigZ (argn i 1)
+  | SNftCreate => bigZ (argn i 1) | SNftAddQuantity => bigZ (argn i 2) | SNftBurn => - bigZ (argn i 2)
+  | SNftAddUri => 0 | SNftUpdateAttributes => 0
+  end%Z.
+(* F4b hypothesis, for the four functions that look an NFT entry up by (token id, nonce) *)
+Definition supply_consistent (E : env) (f : supply_fn) (i : input) (s : mstate) : Prop :=
+  match f with
+  | SNftAddQuantity | SNftBurn | SNftAddUri | SNftUpdateAttributes =>
+      lookup_consistent E s (i_caller i) (P ++ argn i 0) (bigU64 (argn i 1))
+  | _ => True
+  end.
+(* state hypotheses of the balance equation (invariants of reachable states):
+   create: nothing is stored yet under the nonce about to be given out;
+   add quantity / add URI / update attributes: the stored value is not negative
+   (a non-positive stored value makes save_nft delete the entry) *)
+Definition supply_balance_pre (E : env) (f : supply_fn) (i : input) (s : mstate) : Prop :=
+  match f with
+  | SNftCreate => balance E s (i_caller i) (supply_key f i s) = 0%Z
+  | SNftAddQuantity | SNftAddUri | SNftUpdateAttributes => (0 <= balance E s (i_caller i) (supply_key f i s))%Z
+  | _ => True
+  end.
+
+Definition at_cell (a k a0 k0 : bytes) : bool := (beqb a a0 && beqb k k0)%bool.
+Lemma at_cell_true a k a0 k0 : at_cell a k a0 k0 = true <-> a = a0 /\ k = k0.
+Proof.
+  unfold at_cell. destruct (beqb_spec a a0), (beqb_spec k k0); simpl; split; intros H; try discriminate; try tauto.
+  all: destruct H; congruence.
+Qed.
+Lemma at_cell_false a k a0 k0 : at_cell a k a0 k0 = false <-> ~ (a = a0 /\ k = k0).
+Proof. rewrite <- at_cell_true. destruct (at_cell a k a0 k0); split; intros; congruence. Qed.
+
+Section Corollaries.
+  Variable E : env.
+  Hypothesis Hc : codec_ok (cdc E).
+  Notation G := (gas E).
+
+  (* ---------------- balance effect ---------------- *)
+  Lemma frame1_balance a0 k0 d s s' :
+    balance E s' a0 k0 = (balance E s a0 k0 + d)%Z ->
+    unchanged_except (fun a k => a = a0 /\ k = k0) (fun _ => False) s s' ->
+    forall a k, balance E s' a k = (balance E s a k + (if at_cell a k a0 k0 then d else 0))%Z.
+  Proof.
+    intros Hb Hf a k. destruct (at_cell a k a0 k0) eqn:Ec.
+    - apply at_cell_true in Ec as [-> ->]. exact Hb.
+    - apply at_cell_false in Ec. rewrite (ue_balance E _ _ _ _ Hf a k Ec). lia.
+  Qed.
+  Lemma fungible_effect_balance a0 k0 d rae s s' : fungible_effect E a0 k0 d rae s s' ->
+    forall a k, balance E s' a k = (balance E s a k + (if at_cell a k a0 k0 then d else 0))%Z.
+  Proof. intros [_ Hb _ _ Hf _ _]. apply frame1_balance; assumption. Qed.
+
+  Lemma supply_balance_effect_local_mint i s o s' : f_local_mint E i s = (Ok o, s') ->
+    forall a k, balance E s' a k =
+      (balance E s a k + (if at_cell a k (i_caller i) (P ++ argn i 0) then bigZ (argn i 1) else 0))%Z.
+  Proof. intros H. apply (f_local_mint_spec E Hc) in H. destruct H. eapply fungible_effect_balance; eauto. Qed.
+  Lemma supply_balance_effect_local_burn i s o s' : f_local_burn E i s = (Ok o, s') ->
+    forall a k, balance E s' a k =
+      (balance E s a k + (if at_cell a k (i_caller i) (P ++ argn i 0) then - bigZ (argn i 1) else 0))%Z.
+  Proof. intros H. apply (f_local_burn_spec E Hc) in H. destruct H. eapply fungible_effect_balance; eauto. Qed.
+  Lemma supply_balance_effect_esdt_burn i s o s' : f_esdt_burn E i s = (Ok o, s') ->
+    forall a k, balance E s' a k =
+      (balance E s a k + (if at_cell a k (i_caller i) (P ++ argn i 0) then - bigZ (argn i 1) else 0))%Z.
+  Proof. intros H. apply (f_esdt_burn_spec E Hc) in H. destruct H. eapply fungible_effect_balance; eauto. Qed.
+
+  (* create: the entry cell is overwritten with quantity q, the counter cell is not a token cell *)
+  Lemma supply_balance_effect_nft_create i s o s' : f_nft_create E i s = (Ok o, s') ->
+    balance E s (i_caller i) (nft_key (P ++ argn i 0) (create_nonce i s)) = 0%Z ->
+    forall a k, k <> NP ++ argn i 0 ->
+      balance E s' a k =
+      (balance E s a k + (if at_cell a k (i_caller i) (nft_key (P ++ argn i 0) (create_nonce i s))
+                          then bigZ (argn i 1) else 0))%Z.
+  Proof.
+    intros H H0 a k Hk. apply (f_nft_create_spec E Hc) in H. destruct H.
+    destruct (at_cell a k _ _) eqn:Ec.
+    - apply at_cell_true in Ec as [-> ->]. rewrite H0. lia.
+    - apply at_cell_false in Ec. rewrite (ue_balance E _ _ _ _ nc_frame0 a k); [lia|].
+      intros (-> & [->| ->]); [apply Ec; auto|apply Hk; reflexivity].
+  Qed.
+
+  (* the four rewriting functions: general form (cell keyed by the METADATA nonce), then the consistent form *)
+  Lemma nft_update_consistent a key nonce t m t' rae s s' :
+    nft_update E a key nonce t m t' rae s s' -> lookup_consistent E s a key nonce -> md_nonce m = nonce.
+  Proof.
+    intros Hu Hlc. destruct Hu. specialize (Hlc _ nu_found0). unfold tok_nonce in Hlc. rewrite nu_meta0 in Hlc. exact Hlc.
+  Qed.
+  Lemma nft_update_balance a key nonce t m t' rae s s' :
+    nft_update E a key nonce t m t' rae s s' -> lookup_consistent E s a key nonce ->
+    forall a' k', balance E s' a' k' =
+      (balance E s a' k' + (if at_cell a' k' a (nft_key key nonce) then Z.max 0 (val_or_0 t') - val_or_0 t else 0))%Z.
+  Proof.
+    intros Hu Hlc. pose proof (nft_update_consistent _ _ _ _ _ _ _ _ _ Hu Hlc) as Hn. destruct Hu. rewrite Hn in *.
+    apply frame1_balance; [|assumption]. rewrite nu_balance0, (balance_tok_at E _ _ _ _ nu_found0). lia.
+  Qed.
+
+  Lemma supply_balance_effect_nft_add_quantity i s o s' : f_nft_add_quantity E i s = (Ok o, s') ->
+    lookup_consistent E s (i_caller i) (P ++ argn i 0) (bigU64 (argn i 1)) ->
+    (0 <= balance E s (i_caller i) (nft_key (P ++ argn i 0) (bigU64 (argn i 1))))%Z ->
+    forall a k, balance E s' a k =
+      (balance E s a k + (if at_cell a k (i_caller i) (nft_key (P ++ argn i 0) (bigU64 (argn i 1)))
+                          then bigZ (argn i 2) else 0))%Z.
+  Proof.
+    intros H Hlc H0 a k. apply (f_nft_add_quantity_spec E Hc) in H as (t & m & v & H). destruct H.
+    rewrite (nft_update_balance _ _ _ _ _ _ _ _ _ aq_update0 Hlc a k).
+    destruct (at_cell a k _ _); [|reflexivity].
+    rewrite (balance_tok_at E _ _ _ _ (nu_found _ _ _ _ _ _ _ _ _ _ aq_update0)) in H0.
+    unfold val_or_0 in *. rewrite aq_entry_value0 in *. simpl. pose proof (bigZ_nonneg (argn i 2)). lia.
+  Qed.
+  Lemma supply_balance_effect_nft_burn i s o s' : f_nft_burn E i s = (Ok o, s') ->
+    lookup_consistent E s (i_caller i) (P ++ argn i 0) (bigU64 (argn i 1)) ->
+    forall a k, balance E s' a k =
+      (balance E s a k + (if at_cell a k (i_caller i) (nft_key (P ++ argn i 0) (bigU64 (argn i 1)))
+                          then - bigZ (argn i 2) else 0))%Z.
+  Proof.
+    intros H Hlc a k. apply (f_nft_burn_spec E Hc) in H as (t & m & v & H). destruct H.
+    rewrite (nft_update_balance _ _ _ _ _ _ _ _ _ nb_update0 Hlc a k).
+    destruct (at_cell a k _ _); [|reflexivity].
+    unfold val_or_0. rewrite nb_entry_value0. simpl. lia.
+  Qed.
+  Lemma supply_balance_effect_nft_add_uri i s o s' : f_nft_add_uri E i s = (Ok o, s') ->
+    lookup_consistent E s (i_caller i) (P ++ argn i 0) (bigU64 (argn i 1)) ->
+    (0 <= balance E s (i_caller i) (nft_key (P ++ argn i 0) (bigU64 (argn i 1))))%Z ->
+    forall a k, balance E s' a k = balance E s a k.
+  Proof.
+    intros H Hlc H0 a k. apply (f_nft_add_uri_spec E Hc) in H as (t & m & v & H). destruct H.
+    rewrite (nft_update_balance _ _ _ _ _ _ _ _ _ au_update0 Hlc a k).
+    destruct (at_cell a k _ _); [|lia].
+    rewrite (balance_tok_at E _ _ _ _ (nu_found _ _ _ _ _ _ _ _ _ _ au_update0)) in H0.
+    unfold val_or_0 in *. simpl. rewrite au_entry_value0 in *. lia.
+  Qed.
+  Lemma supply_balance_effect_nft_update_attributes i s o s' : f_nft_update_attributes E i s = (Ok o, s') ->
+    lookup_consistent E s (i_caller i) (P ++ argn i 0) (bigU64 (argn i 1)) ->
+    (0 <= balance E s (i_caller i) (nft_key (P ++ argn i 0) (bigU64 (argn i 1))))%Z ->
+    forall a k, balance E s' a k = balance E s a k.
+  Proof.
+    intros H Hlc H0 a k. apply (f_nft_update_attributes_spec E Hc) in H as (t & m & v & H). destruct H.
+    rewrite (nft_update_balance _ _ _ _ _ _ _ _ _ ua_update0 Hlc a k).
+    destruct (at_cell a k _ _); [|lia].
+    rewrite (balance_tok_at E _ _ _ _ (nu_found _ _ _ _ _ _ _ _ _ _ ua_update0)) in H0.
+    unfold val_or_0 in *. simpl. rewrite ua_entry_value0 in *. lia.
+  Qed.
+
+  (* uniform statement *)
+  Theorem supply_balance_effect f i s o s' :
+    run_supply E f i s = (Ok o, s') -> supply_consistent E f i s -> supply_balance_pre E f i s ->
+    forall a k, (f = SNftCreate -> k <> NP ++ argn i 0) ->
+      balance E s' a k =
+      (balance E s a k + (if at_cell a k (i_caller i) (supply_key f i s) then supply_delta f i else 0))%Z.
+  Proof.
+    destruct f; cbn [run_supply supply_key supply_cells supply_delta supply_role supply_consistent supply_balance_pre]; intros H Hlc Hpre a k Hk.
+    - eapply supply_balance_effect_local_mint; eauto.
+    - eapply supply_balance_effect_local_burn; eauto.
+    - eapply supply_balance_effect_esdt_burn; eauto.
+    - eapply supply_balance_effect_nft_create; eauto.
+    - eapply supply_balance_effect_nft_add_quantity; eauto.
+    - eapply supply_balance_effect_nft_burn; eauto.
+    - rewrite (supply_balance_effect_nft_add_uri _ _ _ _ H Hlc Hpre). destruct (at_cell _ _ _ _); lia.
+    - rewrite (supply_balance_effect_nft_update_attributes _ _ _ _ H Hlc Hpre). destruct (at_cell _ _ _ _); lia.
+  Qed.
+
+  (* ---------------- overdraft ---------------- *)
+  Lemma supply_overdraft_fails_local_burn i s :
+    (balance E s (i_caller i) (P ++ argn i 0) < bigZ (argn i 1))%Z ->
+    forall o s', f_local_burn E i s <> (Ok o, s').
+  Proof.
+    intros Hlt o s' H. apply (f_local_burn_spec E Hc) in H. destruct H. destruct lb_effect0. lia.
+  Qed.
+  Lemma supply_overdraft_fails_esdt_burn i s :
+    (balance E s (i_caller i) (P ++ argn i 0) < bigZ (argn i 1))%Z ->
+    forall o s', f_esdt_burn E i s <> (Ok o, s').
+  Proof.
+    intros Hlt o s' H. apply (f_esdt_burn_spec E Hc) in H. destruct H. destruct eb_effect0. lia.
+  Qed.
+  (* no consistency hypothesis: the holding is the one found under the requested (token id, nonce) *)
+  Lemma supply_overdraft_fails_nft_burn i s :
+    (balance E s (i_caller i) (nft_key (P ++ argn i 0) (bigU64 (argn i 1))) < bigZ (argn i 2))%Z ->
+    forall o s', f_nft_burn E i s <> (Ok o, s').
+  Proof.
+    intros Hlt o s' H. apply (f_nft_burn_spec E Hc) in H as (t & m & v & H). destruct H. destruct nb_update0.
+    rewrite (balance_tok_at E _ _ _ _ nu_found0) in Hlt. unfold val_or_0 in Hlt. rewrite nb_entry_value0 in Hlt. lia.
+  Qed.
+  Theorem supply_overdraft_fails f i s :
+    (f = SLocalBurn \/ f = SEsdtBurn \/ f = SNftBurn) ->
+    (balance E s (i_caller i) (supply_key f i s) < - supply_delta f i)%Z ->
+    forall o s', run_supply E f i s <> (Ok o, s').
+  Proof.
+    intros [->|[->| ->]]; cbn [run_supply supply_key supply_cells supply_delta supply_role supply_consistent supply_balance_pre]; rewrite Z.opp_involutive; intros Hlt.
+    - apply supply_overdraft_fails_local_burn. exact Hlt.
+    - apply supply_overdraft_fails_esdt_burn. exact Hlt.
+    - apply supply_overdraft_fails_nft_burn. exact Hlt.
+  Qed.
+
+  (* ---------------- guards common to all eight ---------------- *)
+  (* every successful call: no EGLD value, caller's account on this shard, at least two arguments, return code Ok;
+     all but ESDTBurn: caller = recipient *)
+  Theorem supply_common_guards f i s o s' : run_supply E f i s = (Ok o, s') ->
+    i_value i = 0%Z /\ i_snd i = true /\ (2 <= alen (i_args i))%N /\ o_rc o = C.Ok
+    /\ (f <> SEsdtBurn -> i_caller i = i_rcpt i).
+  Proof.
+    destruct f; cbn [run_supply supply_key supply_cells supply_delta supply_role supply_consistent supply_balance_pre]; intros H.
+    - apply (f_local_mint_spec E Hc) in H. destruct H. subst o. repeat split; auto.
+    - apply (f_local_burn_spec E Hc) in H. destruct H. subst o. repeat split; auto.
+    - apply (f_esdt_burn_spec E Hc) in H. destruct H. subst o. repeat split; auto; [lia| |congruence].
+      unfold esdt_burn_out. destruct (is_sc (i_caller i)); reflexivity.
+    - apply (f_nft_create_spec E Hc) in H. destruct H. subst o. repeat split; auto. lia.
+    - apply (f_nft_add_quantity_spec E Hc) in H as (t & m & v & H). destruct H. subst o. repeat split; auto. lia.
+    - apply (f_nft_burn_spec E Hc) in H as (t & m & v & H). destruct H. subst o. repeat split; auto. lia.
+    - apply (f_nft_add_uri_spec E Hc) in H as (t & m & v & H). destruct H. subst o. repeat split; auto. lia.
+    - apply (f_nft_update_attributes_spec E Hc) in H as (t & m & v & H). destruct H. subst o. repeat split; auto. lia.
+  Qed.
+
+  (* ---------------- roles ---------------- *)
+  Theorem supply_requires_role f i s o s' : run_supply E f i s = (Ok o, s') ->
+    match supply_role f with
+    | Some r => has_role E s (i_caller i) (argn i 0) r = true
+    | None => i_rcpt i = SC
+    end.
+  Proof.
+    destruct f; cbn [run_supply supply_key supply_cells supply_delta supply_role supply_consistent supply_balance_pre]; intros H.
+    - apply (f_local_mint_spec E Hc) in H. destruct H. assumption.
+    - apply (f_local_burn_spec E Hc) in H. destruct H. assumption.
+    - apply (f_esdt_burn_spec E Hc) in H. destruct H. assumption.
+    - apply (f_nft_create_spec E Hc) in H. destruct H. assumption.
+    - apply (f_nft_add_quantity_spec E Hc) in H as (t & m & v & H). destruct H. assumption.
+    - apply (f_nft_burn_spec E Hc) in H as (t & m & v & H). destruct H. assumption.
+    - apply (f_nft_add_uri_spec E Hc) in H as (t & m & v & H). destruct H. assumption.
+    - apply (f_nft_update_attributes_spec E Hc) in H as (t & m & v & H). destruct H. assumption.
+  Qed.
+  (* creating more than one piece additionally needs the add-quantity role *)
+  Lemma supply_requires_role_create_many i s o s' : f_nft_create E i s = (Ok o, s') ->
+    (1 < bigZ (argn i 1))%Z -> has_role E s (i_caller i) (argn i 0) C.ESDTRoleNFTAddQuantity = true.
+  Proof. intros H. apply (f_nft_create_spec E Hc) in H. destruct H. assumption. Qed.
+
+  (* ---------------- frozen / paused ---------------- *)
+  (* create stores a fresh entry without property bits: only the pause flags are looked at *)
+  Theorem supply_frozen_paused f i s o s' : run_supply E f i s = (Ok o, s') -> supply_consistent E f i s ->
+    i_rae i = false -> i_caller i <> SC ->
+    (f <> SNftCreate -> frozen_at E s (i_caller i) (supply_key f i s) = false)
+    /\ paused_at s (P ++ argn i 0) = false
+    /\ paused_at s (supply_key f i s) = false.
+  Proof.
+    destruct f; cbn [run_supply supply_key supply_cells supply_delta supply_role supply_consistent supply_balance_pre]; intros H Hlc Hrae Hsc.
+    - apply (f_local_mint_spec E Hc) in H. destruct H. destruct lm_effect0.
+      destruct (fe_frozen_paused0 Hrae Hsc). auto.
+    - apply (f_local_burn_spec E Hc) in H. destruct H. destruct lb_effect0.
+      destruct (fe_frozen_paused0 Hrae Hsc). auto.
+    - apply (f_esdt_burn_spec E Hc) in H. destruct H. destruct eb_effect0.
+      destruct (fe_frozen_paused0 Hrae Hsc). auto.
+    - apply (f_nft_create_spec E Hc) in H. destruct H. destruct (nc_paused0 Hrae Hsc). split; [congruence|auto].
+    - apply (f_nft_add_quantity_spec E Hc) in H as (t & m & v & H). destruct H.
+      pose proof (nft_update_consistent _ _ _ _ _ _ _ _ _ aq_update0 Hlc) as Hn. destruct aq_update0.
+      destruct (nu_frozen_paused0 Hrae Hsc) as (? & ? & ?). rewrite Hn in *. auto.
+    - apply (f_nft_burn_spec E Hc) in H as (t & m & v & H). destruct H.
+      pose proof (nft_update_consistent _ _ _ _ _ _ _ _ _ nb_update0 Hlc) as Hn. destruct nb_update0.
+      destruct (nu_frozen_paused0 Hrae Hsc) as (? & ? & ?). rewrite Hn in *. auto.
+    - apply (f_nft_add_uri_spec E Hc) in H as (t & m & v & H). destruct H.
+      pose proof (nft_update_consistent _ _ _ _ _ _ _ _ _ au_update0 Hlc) as Hn. destruct au_update0.
+      destruct (nu_frozen_paused0 Hrae Hsc) as (? & ? & ?). rewrite Hn in *. auto.
+    - apply (f_nft_update_attributes_spec E Hc) in H as (t & m & v & H). destruct H.
+      pose proof (nft_update_consistent _ _ _ _ _ _ _ _ _ ua_update0 Hlc) as Hn. destruct ua_update0.
+      destruct (nu_frozen_paused0 Hrae Hsc) as (? & ? & ?). rewrite Hn in *. auto.
+  Qed.
+
+  (* ---------------- footprint ---------------- *)
+  Lemma frame1_cells a0 k0 s s' :
+    unchanged_except (fun a k => a = a0 /\ k = k0) (fun _ => False) s s' ->
+    unchanged_except (fun a k => a = a0 /\ In k [k0]) (fun _ => False) s s'.
+  Proof. apply unchanged_except_weaken; [|auto]. intros a k [-> ->]. split; [reflexivity|left; reflexivity]. Qed.
+
+  (* only storage cells of the caller listed in [supply_cells] change; no account field (EGLD balance, owner,
+     user name, developer reward) of any account changes; no dependency call failed *)
+  Theorem supply_footprint f i s o s' : run_supply E f i s = (Ok o, s') -> supply_consistent E f i s ->
+    unchanged_except (fun a k => a = i_caller i /\ In k (supply_cells f i s)) (fun _ => False) s s'
+    /\ nofault E s s'.
+  Proof.
+    destruct f; cbn [run_supply supply_key supply_cells supply_delta supply_role supply_consistent supply_balance_pre]; intros H Hlc.
+    - apply (f_local_mint_spec E Hc) in H. destruct H. destruct lm_effect0. split; [apply frame1_cells|]; assumption.
+    - apply (f_local_burn_spec E Hc) in H. destruct H. destruct lb_effect0. split; [apply frame1_cells|]; assumption.
+    - apply (f_esdt_burn_spec E Hc) in H. destruct H. destruct eb_effect0. split; [apply frame1_cells|]; assumption.
+    - apply (f_nft_create_spec E Hc) in H. destruct H. split; [|assumption].
+      eapply unchanged_except_weaken; [| |exact nc_frame0]; [|auto].
+      intros a k (-> & [->| ->]); simpl; auto.
+    - apply (f_nft_add_quantity_spec E Hc) in H as (t & m & v & H). destruct H.
+      pose proof (nft_update_consistent _ _ _ _ _ _ _ _ _ aq_update0 Hlc) as Hn. destruct aq_update0.
+      rewrite Hn in *. split; [apply frame1_cells|]; assumption.
+    - apply (f_nft_burn_spec E Hc) in H as (t & m & v & H). destruct H.
+      pose proof (nft_update_consistent _ _ _ _ _ _ _ _ _ nb_update0 Hlc) as Hn. destruct nb_update0.
+      rewrite Hn in *. split; [apply frame1_cells|]; assumption.
+    - apply (f_nft_add_uri_spec E Hc) in H as (t & m & v & H). destruct H.
+      pose proof (nft_update_consistent _ _ _ _ _ _ _ _ _ au_update0 Hlc) as Hn. destruct au_update0.
+      rewrite Hn in *. split; [apply frame1_cells|]; assumption.
+    - apply (f_nft_update_attributes_spec E Hc) in H as (t & m & v & H). destruct H.
+      pose proof (nft_update_consistent _ _ _ _ _ _ _ _ _ ua_update0 Hlc) as Hn. destruct ua_update0.
+      rewrite Hn in *. split; [apply frame1_cells|]; assumption.
+  Qed.
+  (* without the F4b hypothesis: some single cell of the caller under the token's key prefix (plus the counter for
+     create); in particular roles, pause flags, other accounts and other tokens' cells are untouched *)
+  Theorem supply_footprint_general f i s o s' : run_supply E f i s = (Ok o, s') ->
+    exists n, unchanged_except (fun a k => a = i_caller i /\ (k = nft_key (P ++ argn i 0) n
+                                                             \/ (f = SNftCreate /\ k = NP ++ argn i 0)))
+                               (fun _ => False) s s'.
+  Proof.
+    destruct f; cbn [run_supply supply_key supply_cells supply_delta supply_role supply_consistent supply_balance_pre]; intros H.
+    - apply (f_local_mint_spec E Hc) in H. destruct H. destruct lm_effect0. exists 0%N. rewrite nft_key_0.
+      eapply unchanged_except_weaken; [| |exact fe_frame0]; [|auto]. intros a k [-> ->]. auto.
+    - apply (f_local_burn_spec E Hc) in H. destruct H. destruct lb_effect0. exists 0%N. rewrite nft_key_0.
+      eapply unchanged_except_weaken; [| |exact fe_frame0]; [|auto]. intros a k [-> ->]. auto.
+    - apply (f_esdt_burn_spec E Hc) in H. destruct H. destruct eb_effect0. exists 0%N. rewrite nft_key_0.
+      eapply unchanged_except_weaken; [| |exact fe_frame0]; [|auto]. intros a k [-> ->]. auto.
+    - apply (f_nft_create_spec E Hc) in H. destruct H. exists (create_nonce i s).
+      eapply unchanged_except_weaken; [| |exact nc_frame0]; [|auto]. intros a k (-> & [->| ->]); auto.
+    - apply (f_nft_add_quantity_spec E Hc) in H as (t & m & v & H). destruct H. destruct aq_update0.
+      exists (md_nonce m). eapply unchanged_except_weaken; [| |exact nu_frame0]; [|auto]. intros a k [-> ->]. auto.
+    - apply (f_nft_burn_spec E Hc) in H as (t & m & v & H). destruct H. destruct nb_update0.
+      exists (md_nonce m). eapply unchanged_except_weaken; [| |exact nu_frame0]; [|auto]. intros a k [-> ->]. auto.
+    - apply (f_nft_add_uri_spec E Hc) in H as (t & m & v & H). destruct H. destruct au_update0.
+      exists (md_nonce m). eapply unchanged_except_weaken; [| |exact nu_frame0]; [|auto]. intros a k [-> ->]. auto.
+    - apply (f_nft_update_attributes_spec E Hc) in H as (t & m & v & H). destruct H. destruct ua_update0.
+      exists (md_nonce m). eapply unchanged_except_weaken; [| |exact nu_frame0]; [|auto]. intros a k [-> ->]. auto.
+  Qed.
+
+  (* ---------------- only the caller's account is written ---------------- *)
+  Theorem supply_touches f i s o s' : run_supply E f i s = (Ok o, s') -> touches [i_caller i] s s'.
+  Proof.
+    destruct f; cbn [run_supply supply_key supply_cells supply_delta supply_role supply_consistent supply_balance_pre]; intros H.
+    - apply (f_local_mint_spec E Hc) in H. destruct H. destruct lm_effect0. assumption.
+    - apply (f_local_burn_spec E Hc) in H. destruct H. destruct lb_effect0. assumption.
+    - apply (f_esdt_burn_spec E Hc) in H. destruct H. destruct eb_effect0. assumption.
+    - apply (f_nft_create_spec E Hc) in H. destruct H. assumption.
+    - apply (f_nft_add_quantity_spec E Hc) in H as (t & m & v & H). destruct H. destruct aq_update0. assumption.
+    - apply (f_nft_burn_spec E Hc) in H as (t & m & v & H). destruct H. destruct nb_update0. assumption.
+    - apply (f_nft_add_uri_spec E Hc) in H as (t & m & v & H). destruct H. destruct au_update0. assumption.
+    - apply (f_nft_update_attributes_spec E Hc) in H as (t & m & v & H). destruct H. destruct ua_update0. assumption.
+  Qed.
+
+  (* the shard-wide total held under any token key moves by exactly the delta (conservation proofs) *)
+  Theorem supply_shard_total f i s o s' :
+    run_supply E f i s = (Ok o, s') -> supply_consistent E f i s -> supply_balance_pre E f i s ->
+    NoDup (map fst (accts s)) ->
+    forall k, (f = SNftCreate -> k <> NP ++ argn i 0) ->
+      asum (acct_bal E k) (accts s') =
+      (asum (acct_bal E k) (accts s) + (if beqb k (supply_key f i s) then supply_delta f i else 0))%Z.
+  Proof.
+    intros H Hlc Hpre Hnd k Hk.
+    rewrite (touches_sum [i_caller i] s s' (acct_bal E k)
+               (fun a => if at_cell a k (i_caller i) (supply_key f i s) then supply_delta f i else 0%Z)
+               (supply_touches _ _ _ _ _ H) Hnd (acct_bal_empty E k)).
+    - cbn [zsum]. unfold at_cell. rewrite beqb_refl. cbn [andb]. lia.
+    - intros a _. rewrite <- !balance_acct_bal. eapply supply_balance_effect; eauto.
+  Qed.
+
+  (* ---------------- observables that none of the eight changes (no F4b hypothesis needed) ---------------- *)
+  Theorem supply_roles_unchanged f i s o s' : run_supply E f i s = (Ok o, s') ->
+    forall a tok, roles_at E s' a tok = roles_at E s a tok.
+  Proof.
+    intros H a tok. destruct (supply_footprint_general _ _ _ _ _ H) as (n & Hf).
+    apply (ue_roles_at E _ _ _ _ Hf). intros (_ & [Hk|[_ Hk]]).
+    - symmetry in Hk. revert Hk. apply nft_key_RP_disjoint.
+    - revert Hk. apply RP_NP_disjoint.
+  Qed.
+  Theorem supply_has_role_unchanged f i s o s' : run_supply E f i s = (Ok o, s') ->
+    forall a tok r, has_role E s' a tok r = has_role E s a tok r.
+  Proof. intros H a tok r. unfold has_role. rewrite (supply_roles_unchanged _ _ _ _ _ H). reflexivity. Qed.
+  (* the create counter moves only in ESDTNFTCreate, and there only (caller, token) *)
+  Theorem supply_counter_unchanged f i s o s' : run_supply E f i s = (Ok o, s') ->
+    forall a tok, ~ (f = SNftCreate /\ a = i_caller i /\ tok = argn i 0) -> counter_at s' a tok = counter_at s a tok.
+  Proof.
+    intros H a tok Hn. destruct (supply_footprint_general _ _ _ _ _ H) as (n & Hf).
+    apply (ue_counter_at _ _ _ _ Hf). intros (Ha & [Hk|[Hc' Hk]]).
+    - symmetry in Hk. revert Hk. apply nft_key_NP_disjoint.
+    - apply NP_app_inj in Hk. apply Hn. auto.
+  Qed.
+  (* pause flags live in the system account: untouched unless the system account itself is the caller (cf. F8) *)
+  Theorem supply_paused_unchanged f i s o s' : run_supply E f i s = (Ok o, s') -> i_caller i <> SYS ->
+    forall k, paused_at s' k = paused_at s k.
+  Proof.
+    intros H Hsys k. destruct (supply_footprint_general _ _ _ _ _ H) as (n & Hf).
+    apply (ue_paused_at _ _ _ _ Hf). intros (Ha & _). apply Hsys. symmetry. exact Ha.
+  Qed.
+  Theorem supply_fields_unchanged f i s o s' : run_supply E f i s = (Ok o, s') ->
+    forall a, acct_fields_eq (acct s' a) (acct s a).
+  Proof.
+    intros H a. destruct (supply_footprint_general _ _ _ _ _ H) as (n & Hf).
+    apply (ue_fields _ _ _ _ Hf). tauto.
+  Qed.
+  (* token entries outside the footprint *)
+  Theorem supply_other_entries_unchanged f i s o s' : run_supply E f i s = (Ok o, s') -> supply_consistent E f i s ->
+    forall a k, ~ (a = i_caller i /\ In k (supply_cells f i s)) ->
+      cell s' a k = cell s a k /\ tok_at E s' a k = tok_at E s a k /\ balance E s' a k = balance E s a k
+      /\ frozen_at E s' a k = frozen_at E s a k.
+  Proof.
+    intros H Hlc a k Hn. destruct (supply_footprint _ _ _ _ _ H Hlc) as [Hf _].
+    split; [apply (ue_cell _ _ _ _ Hf _ _ Hn)|]. split; [apply (ue_tok_at E _ _ _ _ Hf _ _ Hn)|].
+    split; [apply (ue_balance E _ _ _ _ Hf _ _ Hn)|apply (ue_frozen_at E _ _ _ _ Hf _ _ Hn)].
+  Qed.
+
+  (* ---------------- metadata (C08) ---------------- *)
+  (* metadata of the entry stored under a full key (None: no entry or an entry without metadata) *)
+  Definition meta_at (s : mstate) (a k : bytes) : option metadata :=
+    match tok_at E s a k with Some t => t_meta t | None => None end.
+
+  (* ESDTNFTCreate records exactly the metadata given in the arguments, under the next nonce, which it returns *)
+  Theorem create_records_metadata i s o s' : f_nft_create E i s = (Ok o, s') ->
+    let n := u64 (counter_at s (i_caller i) (argn i 0) + 1) in
+    tok_at E s' (i_caller i) (nft_key (P ++ argn i 0) n) =
+      Some {| t_type := C.NonFungible; t_value := Some (bigZ (argn i 1)); t_props := [];
+              t_meta := Some {| md_nonce := n; md_name := argn i 2; md_creator := i_caller i;
+                                md_royalties := u32 (bigU64 (argn i 3)); md_hash := argn i 4;
+                                md_uris := skipn 6 (i_args i); md_attributes := argn i 5 |};
+              t_reserved := [] |}
+    /\ (u32 (bigU64 (argn i 3)) <= C.MaxRoyalty)%N
+    /\ (0 < bigZ (argn i 1))%Z
+    /\ counter_at s' (i_caller i) (argn i 0) = n
+    /\ o_returnData o = [u64_bytes n]
+    /\ (forall a k, ~ (a = i_caller i /\ k = nft_key (P ++ argn i 0) n) -> k <> NP ++ argn i 0 ->
+          tok_at E s' a k = tok_at E s a k).
+  Proof.
+    intros H n. apply (f_nft_create_spec E Hc) in H. destruct H.
+    split; [exact nc_entry0|]. split; [assumption|]. split; [assumption|]. split; [assumption|].
+    split; [assumption|]. intros a k Hn Hk. apply (ue_tok_at E _ _ _ _ nc_frame0).
+    intros (-> & [->| ->]); [apply Hn; auto|apply Hk; reflexivity].
+  Qed.
+
+  (* what [set_uris] / [set_attributes] leave alone *)
+  Lemma set_uris_fields t m u :
+    let t' := set_meta t (Some (set_uris m u)) in
+    t_type t' = t_type t /\ t_value t' = t_value t /\ t_props t' = t_props t /\ t_reserved t' = t_reserved t
+    /\ exists m', t_meta t' = Some m' /\ md_uris m' = u
+         /\ md_nonce m' = md_nonce m /\ md_name m' = md_name m /\ md_creator m' = md_creator m
+         /\ md_royalties m' = md_royalties m /\ md_hash m' = md_hash m /\ md_attributes m' = md_attributes m.
+  Proof. cbv zeta. repeat split. eexists. repeat split. Qed.
+  Lemma set_attributes_fields t m x :
+    let t' := set_meta t (Some (set_attributes m x)) in
+    t_type t' = t_type t /\ t_value t' = t_value t /\ t_props t' = t_props t /\ t_reserved t' = t_reserved t
+    /\ exists m', t_meta t' = Some m' /\ md_attributes m' = x
+         /\ md_nonce m' = md_nonce m /\ md_name m' = md_name m /\ md_creator m' = md_creator m
+         /\ md_royalties m' = md_royalties m /\ md_hash m' = md_hash m /\ md_uris m' = md_uris m.
+  Proof. cbv zeta. repeat split. eexists. repeat split. Qed.
+
+  (* ESDTNFTAddURI: the entry found under (token id, nonce) is stored back with the URIs (arguments 2..) appended,
+     everything else as it was (the entry disappears if its stored value was not positive); no other entry changes *)
+  Theorem add_uri_effect i s o s' : f_nft_add_uri E i s = (Ok o, s') ->
+    lookup_consistent E s (i_caller i) (P ++ argn i 0) (bigU64 (argn i 1)) ->
+    let key := nft_key (P ++ argn i 0) (bigU64 (argn i 1)) in
+    exists t m v,
+      tok_at E s (i_caller i) key = Some t /\ t_meta t = Some m /\ t_value t = Some v
+      /\ tok_at E s' (i_caller i) key =
+         (if (v <=? 0)%Z then None else Some (set_meta t (Some (set_uris m (md_uris m ++ skipn 2 (i_args i))))))
+      /\ (forall a k, ~ (a = i_caller i /\ k = key) -> tok_at E s' a k = tok_at E s a k).
+  Proof.
+    intros H Hlc key. subst key. apply (f_nft_add_uri_spec E Hc) in H as (t & m & v & H). destruct H.
+    pose proof (nft_update_consistent _ _ _ _ _ _ _ _ _ au_update0 Hlc) as Hn. destruct au_update0.
+    rewrite Hn in *. exists t, m, v. split; [assumption|]. split; [assumption|]. split; [assumption|]. split.
+    - rewrite nu_stored0. unfold val_or_0. simpl. rewrite au_entry_value0. reflexivity.
+    - intros a k Hk. apply (ue_tok_at E _ _ _ _ nu_frame0 _ _ Hk).
+  Qed.
+  (* ESDTNFTUpdateAttributes: same with the attributes replaced by argument 2 *)
+  Theorem update_attributes_effect i s o s' : f_nft_update_attributes E i s = (Ok o, s') ->
+    lookup_consistent E s (i_caller i) (P ++ argn i 0) (bigU64 (argn i 1)) ->
+    let key := nft_key (P ++ argn i 0) (bigU64 (argn i 1)) in
+    exists t m v,
+      tok_at E s (i_caller i) key = Some t /\ t_meta t = Some m /\ t_value t = Some v
+      /\ tok_at E s' (i_caller i) key =
+         (if (v <=? 0)%Z then None else Some (set_meta t (Some (set_attributes m (argn i 2)))))
+      /\ (forall a k, ~ (a = i_caller i /\ k = key) -> tok_at E s' a k = tok_at E s a k).
+  Proof.
+    intros H Hlc key. subst key. apply (f_nft_update_attributes_spec E Hc) in H as (t & m & v & H). destruct H.
+    pose proof (nft_update_consistent _ _ _ _ _ _ _ _ _ ua_update0 Hlc) as Hn. destruct ua_update0.
+    rewrite Hn in *. exists t, m, v. split; [assumption|]. split; [assumption|]. split; [assumption|]. split.
+    - rewrite nu_stored0. unfold val_or_0. simpl. rewrite ua_entry_value0. reflexivity.
+    - intros a k Hk. apply (ue_tok_at E _ _ _ _ nu_frame0 _ _ Hk).
+  Qed.
+
+  (* the other five: every entry present after the call carries the metadata that was there before
+     (entries may be created without metadata by mint, and deleted by the burns) *)
+  Lemma fungible_effect_meta a0 k0 d rae s s' : fungible_effect E a0 k0 d rae s s' ->
+    forall a k t', tok_at E s' a k = Some t' -> t_meta t' = meta_at s a k.
+  Proof.
+    intros [_ _ (t & Ht & _ & _ & _ & Hst) _ Hf _ _] a k t' Ht'. unfold meta_at.
+    destruct (at_cell a k a0 k0) eqn:Ec.
+    - apply at_cell_true in Ec as [-> ->]. rewrite Hst in Ht'.
+      destruct ((balance E s a0 k0 + d =? 0)%Z && all_zero (t_props t))%bool; [discriminate|].
+      inversion Ht'; subst t'. simpl.
+      destruct (tod_cases E _ _ _ _ Ht) as [(_ & -> & ->)|(_ & ->)]; reflexivity.
+    - apply at_cell_false in Ec. rewrite <- (ue_tok_at E _ _ _ _ Hf _ _ Ec), Ht'. reflexivity.
+  Qed.
+  Lemma nft_update_meta a0 key nonce t m t' rae s s' : nft_update E a0 key nonce t m t' rae s s' ->
+    lookup_consistent E s a0 key nonce -> t_meta t' = t_meta t ->
+    forall a k x, tok_at E s' a k = Some x -> t_meta x = meta_at s a k.
+  Proof.
+    intros Hu Hlc Hm a k x Hx. pose proof (nft_update_consistent _ _ _ _ _ _ _ _ _ Hu Hlc) as Hn. destruct Hu.
+    rewrite Hn in *. unfold meta_at. destruct (at_cell a k a0 (nft_key key nonce)) eqn:Ec.
+    - apply at_cell_true in Ec as [-> ->]. rewrite nu_stored0 in Hx. destruct (val_or_0 t' <=? 0)%Z; [discriminate|].
+      inversion Hx; subst x. rewrite nu_found0. exact Hm.
+    - apply at_cell_false in Ec. rewrite <- (ue_tok_at E _ _ _ _ nu_frame0 _ _ Ec), Hx. reflexivity.
+  Qed.
+  Theorem supply_metadata_preserved f i s o s' :
+    (f = SLocalMint \/ f = SLocalBurn \/ f = SEsdtBurn \/ f = SNftAddQuantity \/ f = SNftBurn) ->
+    run_supply E f i s = (Ok o, s') -> supply_consistent E f i s ->
+    forall a k t', tok_at E s' a k = Some t' -> t_meta t' = meta_at s a k.
+  Proof.
+    intros [->|[->|[->|[->| ->]]]]; cbn [run_supply supply_key supply_cells supply_delta supply_role supply_consistent supply_balance_pre]; intros H Hlc.
+    - apply (f_local_mint_spec E Hc) in H. destruct H. eapply fungible_effect_meta; eauto.
+    - apply (f_local_burn_spec E Hc) in H. destruct H. eapply fungible_effect_meta; eauto.
+    - apply (f_esdt_burn_spec E Hc) in H. destruct H. eapply fungible_effect_meta; eauto.
+    - apply (f_nft_add_quantity_spec E Hc) in H as (t & m & v & H). destruct H.
+      eapply nft_update_meta; eauto.
+    - apply (f_nft_burn_spec E Hc) in H as (t & m & v & H). destruct H.
+      eapply nft_update_meta; eauto.
+  Qed.
+End Corollaries.
+
+(* ================================================================== *)
+(* 7. Liveness: the guards of the specs are sufficient                 *)
+(* ================================================================== *)
+Section Liveness.
+  Variable E : env.
+  Hypothesis Hc : codec_ok (cdc E).
+  Hypothesis Hnf : no_faults E.
+  Notation G := (gas E).
+
+  (* the entry under the fungible key can be used by add_to_esdt_balance: absent, or a fungible entry with a value *)
+  Definition fungible_cell (s : mstate) (a key : bytes) : Prop :=
+    cell s a key = [] \/ exists t, tok_at E s a key = Some t /\ t_type t = C.Fungible /\ t_value t <> None.
+
+  Lemma add_to_esdt_balance_succeeds_rd a key delta rae s s1 :
+    rd E s s1 -> fungible_cell s a key ->
+    (rae = false -> a <> SC -> frozen_at E s a key = false /\ paused_at s key = false) ->
+    (0 <= balance E s a key + delta)%Z ->
+    exists s', add_to_esdt_balance E a key delta rae s1 = (Ok tt, s').
+  Proof.
+    intros Hr Hcell Hfp Hb. apply (add_to_esdt_balance_succeeds' E Hc); [exact Hnf| | |].
+    - unfold fungible_cell in Hcell. rewrite (rd_cell _ _ _ a key Hr), (rd_tok_at _ _ _ a key Hr). exact Hcell.
+    - rewrite (rd_frozen_at _ _ _ a key Hr), (rd_paused_at _ _ _ key Hr). exact Hfp.
+    - rewrite (rd_balance _ _ _ a key Hr). exact Hb.
+  Qed.
+
+  Theorem f_local_mint_succeeds i s :
+    i_value i = 0%Z -> (2 <= alen (i_args i))%N -> i_caller i = i_rcpt i -> i_snd i = true ->
+    (0 < bigZ (argn i 1))%Z -> (zlen (argn i 1) <= C.MaxLenForESDTIssueMint)%N ->
+    (g_ESDTLocalMint G <= i_gas i)%N ->
+    has_role E s (i_caller i) (argn i 0) C.ESDTRoleLocalMint = true ->
+    fungible_cell s (i_caller i) (P ++ argn i 0) ->
+    (i_rae i = false -> i_caller i <> SC ->
+       frozen_at E s (i_caller i) (P ++ argn i 0) = false /\ paused_at s (P ++ argn i 0) = false) ->
+    (0 <= balance E s (i_caller i) (P ++ argn i 0) + bigZ (argn i 1))%Z ->
+    exists o s', f_local_mint E i s = (Ok o, s').
+  Proof.
+    intros Hv Hl Hcr Hsnd Hpos Hlen Hg Hrole Hcell Hfp Hb. unfold f_local_mint. cbv zeta.
+    rewrite (bind_eq _ _ _ _ _ (check_local_action_succeeds i _ s Hv Hl Hcr Hsnd Hpos Hg)).
+    assert (L0 : (0 < alen (i_args i))%N) by lia. assert (L1 : (1 < alen (i_args i))%N) by lia.
+    rewrite (bind_eq _ _ _ _ _ (arg_argn_succeeds i 0 s L0)). argnorm.
+    destruct (check_allowed_succeeds E _ _ _ _ s Hnf Hsnd Hrole) as (s1 & H1).
+    rewrite (bind_eq _ _ _ _ _ H1). apply check_allowed_ok in H1 as (_ & _ & Hrd).
+    rewrite (bind_eq _ _ _ _ _ (arg_argn_succeeds i 1 s1 L1)). argnorm.
+    rewrite (bind_eq _ _ _ _ _ (guard_true _ _ _ (le_negb_ltb _ _ Hlen))).
+    destruct (add_to_esdt_balance_succeeds_rd _ _ _ (i_rae i) _ _ Hrd Hcell Hfp Hb) as (s2 & H2).
+    rewrite (bind_eq _ _ _ _ _ H2). eexists. eexists. reflexivity.
+  Qed.
+
+  Theorem f_local_burn_succeeds i s :
+    i_value i = 0%Z -> (2 <= alen (i_args i))%N -> i_caller i = i_rcpt i -> i_snd i = true ->
+    (0 < bigZ (argn i 1))%Z -> (g_ESDTLocalBurn G <= i_gas i)%N ->
+    has_role E s (i_caller i) (argn i 0) C.ESDTRoleLocalBurn = true ->
+    fungible_cell s (i_caller i) (P ++ argn i 0) ->
+    (i_rae i = false -> i_caller i <> SC ->
+       frozen_at E s (i_caller i) (P ++ argn i 0) = false /\ paused_at s (P ++ argn i 0) = false) ->
+    (bigZ (argn i 1) <= balance E s (i_caller i) (P ++ argn i 0))%Z ->
+    exists o s', f_local_burn E i s = (Ok o, s').
+  Proof.
+    intros Hv Hl Hcr Hsnd Hpos Hg Hrole Hcell Hfp Hb. unfold f_local_burn. cbv zeta.
+    rewrite (bind_eq _ _ _ _ _ (check_local_action_succeeds i _ s Hv Hl Hcr Hsnd Hpos Hg)).
+    assert (L0 : (0 < alen (i_args i))%N) by lia. assert (L1 : (1 < alen (i_args i))%N) by lia.
+    rewrite (bind_eq _ _ _ _ _ (arg_argn_succeeds i 0 s L0)). argnorm.
+    destruct (check_allowed_succeeds E _ _ _ _ s Hnf Hsnd Hrole) as (s1 & H1).
+    rewrite (bind_eq _ _ _ _ _ H1). apply check_allowed_ok in H1 as (_ & _ & Hrd).
+    rewrite (bind_eq _ _ _ _ _ (arg_argn_succeeds i 1 s1 L1)). argnorm.
+    assert (Hb' : (0 <= balance E s (i_caller i) (P ++ argn i 0) + - bigZ (argn i 1))%Z) by lia.
+    destruct (add_to_esdt_balance_succeeds_rd _ _ _ (i_rae i) _ _ Hrd Hcell Hfp Hb') as (s2 & H2).
+    rewrite (bind_eq _ _ _ _ _ H2). eexists. eexists. reflexivity.
+  Qed.
+
+  Theorem f_esdt_burn_succeeds i s :
+    i_value i = 0%Z -> alen (i_args i) = 2%N -> i_rcpt i = SC -> i_snd i = true ->
+    (0 < bigZ (argn i 1))%Z -> (g_ESDTBurn G <= i_gas i)%N ->
+    fungible_cell s (i_caller i) (P ++ argn i 0) ->
+    (i_rae i = false -> i_caller i <> SC ->
+       frozen_at E s (i_caller i) (P ++ argn i 0) = false /\ paused_at s (P ++ argn i 0) = false) ->
+    (bigZ (argn i 1) <= balance E s (i_caller i) (P ++ argn i 0))%Z ->
+    exists o s', f_esdt_burn E i s = (Ok o, s').
+  Proof.
+    intros Hv Hl Hsc Hsnd Hpos Hg Hcell Hfp Hb. unfold f_esdt_burn. cbv zeta.
+    assert (L2 : (2 <= alen (i_args i))%N) by lia.
+    rewrite (bind_eq _ _ _ _ _ (check_basic_succeeds i s Hv L2)).
+    assert (G1 : (alen (i_args i) =? 2)%N = true) by lia.
+    rewrite (bind_eq _ _ _ _ _ (guard_true _ _ _ G1)).
+    assert (L0 : (0 < alen (i_args i))%N) by lia. assert (L1 : (1 < alen (i_args i))%N) by lia.
+    rewrite (bind_eq _ _ _ _ _ (arg_argn_succeeds i 0 s L0)).
+    rewrite (bind_eq _ _ _ _ _ (arg_argn_succeeds i 1 s L1)). argnorm.
+    assert (G2 : (0 <? bigZ (argn i 1))%Z = true) by lia.
+    rewrite (bind_eq _ _ _ _ _ (guard_true _ _ _ G2)).
+    assert (G3 : beqb (i_rcpt i) SC = true) by (rewrite Hsc; apply beqb_refl).
+    rewrite (bind_eq _ _ _ _ _ (guard_true _ _ _ G3)).
+    rewrite (bind_eq _ _ _ _ _ (guard_true _ _ _ Hsnd)).
+    rewrite (bind_eq _ _ _ _ _ (guard_true _ _ _ (le_negb_ltb _ _ Hg))).
+    assert (Hb' : (0 <= balance E s (i_caller i) (P ++ argn i 0) + - bigZ (argn i 1))%Z) by lia.
+    destruct (add_to_esdt_balance_succeeds_rd _ _ _ (i_rae i) _ _ (rd_refl E s) Hcell Hfp Hb') as (s2 & H2).
+    rewrite (bind_eq _ _ _ _ _ H2). eexists. eexists. reflexivity.
+  Qed.
+
+  Theorem f_nft_create_succeeds i s :
+    i_value i = 0%Z -> (7 <= alen (i_args i))%N -> i_caller i = i_rcpt i -> i_snd i = true ->
+    (g_ESDTNFTCreate G <= i_gas i)%N -> (create_use E i <= i_gas i)%N ->
+    has_role E s (i_caller i) (argn i 0) C.ESDTRoleNFTCreate = true ->
+    (u32 (bigU64 (argn i 3)) <= C.MaxRoyalty)%N ->
+    (0 < bigZ (argn i 1))%Z ->
+    ((1 < bigZ (argn i 1))%Z -> has_role E s (i_caller i) (argn i 0) C.ESDTRoleNFTAddQuantity = true) ->
+    (i_rae i = false -> i_caller i <> SC ->
+       paused_at s (P ++ argn i 0) = false /\ paused_at s (nft_key (P ++ argn i 0) (create_nonce i s)) = false) ->
+    exists o s', f_nft_create E i s = (Ok o, s').
+  Proof.
+    intros Hv Hl Hcr Hsnd Hg0 Hg Hrole Hroy Hq Hrole2 Hfp. unfold f_nft_create. cbv zeta.
+    assert (L2 : (2 <= alen (i_args i))%N) by lia.
+    rewrite (bind_eq _ _ _ _ _ (check_create_burn_add_succeeds i _ s Hv L2 Hcr Hsnd Hg0)).
+    rewrite (bind_eq _ _ _ _ _ (guard_true _ _ _ (le_negb_ltb _ _ Hl))).
+    assert (L0 : (0 < alen (i_args i))%N) by lia. assert (L1 : (1 < alen (i_args i))%N) by lia.
+    assert (L2' : (2 < alen (i_args i))%N) by lia. assert (L3 : (3 < alen (i_args i))%N) by lia.
+    assert (L4 : (4 < alen (i_args i))%N) by lia. assert (L5 : (5 < alen (i_args i))%N) by lia.
+    assert (L6 : (6 <= alen (i_args i))%N) by lia.
+    rewrite (bind_eq _ _ _ _ _ (arg_argn_succeeds i 0 s L0)). argnorm.
+    destruct (check_allowed_succeeds E _ _ _ _ s Hnf Hsnd Hrole) as (s1 & H1).
+    rewrite (bind_eq _ _ _ _ _ H1). apply check_allowed_ok in H1 as (_ & _ & Hrd1).
+    rewrite (bind_eq _ _ _ _ _ (get_latest_nonce_eq _ _ s1)).
+    rewrite (rd_counter_at _ _ _ (i_caller i) (argn i 0) Hrd1).
+    fold (create_use E i). rewrite (bind_eq _ _ _ _ _ (guard_true _ _ _ (le_negb_ltb _ _ Hg))).
+    rewrite (bind_eq _ _ _ _ _ (arg_argn_succeeds i 3 s1 L3)). argnorm.
+    rewrite (bind_eq _ _ _ _ _ (guard_true _ _ _ (le_negb_ltb _ _ Hroy))).
+    rewrite (bind_eq _ _ _ _ _ (arg_argn_succeeds i 1 s1 L1)). argnorm.
+    assert (G1 : (0 <? bigZ (argn i 1))%Z = true) by lia.
+    rewrite (bind_eq _ _ _ _ _ (guard_true _ _ _ G1)).
+    assert (exists s2, (if (1 <? bigZ (argn i 1))%Z
+                        then check_allowed E (i_snd i) (i_caller i) (argn i 0) C.ESDTRoleNFTAddQuantity
+                        else ret tt) s1 = (Ok tt, s2) /\ rd E s s2) as (s2 & H2 & Hrd2).
+    { destruct (1 <? bigZ (argn i 1))%Z eqn:E1.
+      - assert (Hr2 : has_role E s1 (i_caller i) (argn i 0) C.ESDTRoleNFTAddQuantity = true)
+          by (rewrite (rd_has_role _ _ _ _ _ _ Hrd1); apply Hrole2; lia).
+        destruct (check_allowed_succeeds E _ _ _ _ s1 Hnf Hsnd Hr2) as (s2 & H2). exists s2. split; [exact H2|].
+        apply check_allowed_ok in H2 as (_ & _ & Hrd2). eapply rd_trans; eauto.
+      - exists s1. split; [reflexivity|exact Hrd1]. }
+    rewrite (bind_eq _ _ _ _ _ H2).
+    rewrite (bind_eq _ _ _ _ _ (arg_argn_succeeds i 2 s2 L2')).
+    rewrite (bind_eq _ _ _ _ _ (arg_argn_succeeds i 4 s2 L4)).
+    rewrite (bind_eq _ _ _ _ _ (arg_argn_succeeds i 5 s2 L5)).
+    rewrite (bind_eq _ _ _ _ _ (args_from_succeeds (i_args i) 6 s2 L6)). argnorm.
+    fold (create_nonce i s). fold (created_token i s).
+    destruct (save_nft_succeeds E (i_caller i) (P ++ argn i 0) (created_token i s) (i_rae i) s2 (bigZ (argn i 1)) Hnf eq_refl)
+      as (b & s3 & H3).
+    { intros h1 h2. destruct (Hfp h1 h2) as [P1 P2]. split; [reflexivity|].
+      change (tok_nonce (created_token i s)) with (create_nonce i s).
+      rewrite (rd_paused_at _ _ _ _ Hrd2), (rd_paused_at _ _ _ (nft_key _ _) Hrd2). auto. }
+    rewrite (bind_eq _ _ _ _ _ H3).
+    destruct (save_latest_nonce_succeeds E (i_caller i) (argn i 0) (create_nonce i s) s3 (Hnf _)) as (s4 & H4).
+    rewrite (bind_eq _ _ _ _ _ H4). eexists. eexists. reflexivity.
+  Qed.
+  (* the four functions that rewrite an entry: found entry t with metadata m and value v *)
+  Definition nft_entry_usable (i : input) (s : mstate) (t : token) (m : metadata) (v : Z) : Prop :=
+    bigU64 (argn i 1) <> 0%N
+    /\ tok_at E s (i_caller i) (nft_key (P ++ argn i 0) (bigU64 (argn i 1))) = Some t
+    /\ t_meta t = Some m /\ t_value t = Some v
+    /\ (i_rae i = false -> i_caller i <> SC ->
+          frozen_props (t_props t) = false /\ paused_at s (P ++ argn i 0) = false
+          /\ paused_at s (nft_key (P ++ argn i 0) (md_nonce m)) = false).
+
+  Lemma nft_lookup_succeeds i s s1 t m v : rd E s s1 -> nft_entry_usable i s t m v ->
+    exists s2, get_nft_on_sender E (i_caller i) (P ++ argn i 0) (bigU64 (argn i 1)) s1 = (Ok t, s2) /\ rd E s s2
+      /\ (bigU64 (argn i 1) =? 0)%N = false.
+  Proof.
+    intros Hr (Hn & Ht & Hm & Hv & Hfp).
+    destruct (get_nft_on_sender_succeeds E (i_caller i) (P ++ argn i 0) (bigU64 (argn i 1)) s1 t (Hnf _)) as (s2 & H2).
+    - rewrite (rd_tok_at _ _ _ _ _ Hr). exact Ht.
+    - intros _. rewrite Hm. discriminate.
+    - intros H0. contradiction.
+    - exists s2. split; [exact H2|]. apply (get_nft_on_sender_ok E Hc) in H2 as (Hr2 & _).
+      split; [eapply rd_trans; eauto|]. apply N.eqb_neq. exact Hn.
+  Qed.
+  Lemma nft_store_succeeds i s s2 t m v t' v' : rd E s s2 -> nft_entry_usable i s t m v ->
+    tok_nonce t' = md_nonce m -> t_props t' = t_props t -> t_value t' = Some v' ->
+    exists b s', save_nft E (i_caller i) (P ++ argn i 0) t' (i_rae i) s2 = (Ok b, s').
+  Proof.
+    intros Hr (Hn & Ht & Hm & Hv & Hfp) Hno Hpr Hv'.
+    apply (save_nft_succeeds E _ _ _ _ _ v' Hnf Hv'). intros h1 h2. destruct (Hfp h1 h2) as (F & P1 & P2).
+    rewrite Hno, Hpr, (rd_paused_at _ _ _ _ Hr), (rd_paused_at _ _ _ (nft_key _ _) Hr). auto.
+  Qed.
+
+  Theorem f_nft_add_quantity_succeeds i s t m v :
+    i_value i = 0%Z -> (3 <= alen (i_args i))%N -> i_caller i = i_rcpt i -> i_snd i = true ->
+    (g_ESDTNFTAddQuantity G <= i_gas i)%N ->
+    has_role E s (i_caller i) (argn i 0) C.ESDTRoleNFTAddQuantity = true ->
+    nft_entry_usable i s t m v ->
+    exists o s', f_nft_add_quantity E i s = (Ok o, s').
+  Proof.
+    intros Hv Hl Hcr Hsnd Hg Hrole Hent. unfold f_nft_add_quantity. cbv zeta.
+    assert (L2 : (2 <= alen (i_args i))%N) by lia.
+    rewrite (bind_eq _ _ _ _ _ (check_create_burn_add_succeeds i _ s Hv L2 Hcr Hsnd Hg)).
+    rewrite (bind_eq _ _ _ _ _ (guard_true _ _ _ (le_negb_ltb _ _ Hl))).
+    assert (L0 : (0 < alen (i_args i))%N) by lia. assert (L1 : (1 < alen (i_args i))%N) by lia.
+    assert (L2' : (2 < alen (i_args i))%N) by lia.
+    rewrite (bind_eq _ _ _ _ _ (arg_argn_succeeds i 0 s L0)). argnorm.
+    destruct (check_allowed_succeeds E _ _ _ _ s Hnf Hsnd Hrole) as (s1 & H1).
+    rewrite (bind_eq _ _ _ _ _ H1). apply check_allowed_ok in H1 as (_ & _ & Hrd1).
+    rewrite (bind_eq _ _ _ _ _ (arg_argn_succeeds i 1 s1 L1)). argnorm.
+    destruct (nft_lookup_succeeds i s s1 t m v Hrd1 Hent) as (s2 & H2 & Hrd2 & Hn0).
+    rewrite (bind_eq _ _ _ _ _ (guard_true _ _ _ (f_equal negb Hn0))).
+    rewrite (bind_eq _ _ _ _ _ H2).
+    destruct Hent as (Hn & Ht & Hm & Hval & Hfp).
+    rewrite (bind_eq _ _ _ _ _ (val_of_succeeds _ _ s2 Hval)).
+    rewrite (bind_eq _ _ _ _ _ (arg_argn_succeeds i 2 s2 L2')). argnorm.
+    destruct (nft_store_succeeds i s s2 t m v (set_value t (Some (v + bigZ (argn i 2))%Z)) (v + bigZ (argn i 2))%Z Hrd2
+                (conj Hn (conj Ht (conj Hm (conj Hval Hfp))))) as (b & s3 & H3); try reflexivity.
+    { unfold tok_nonce. simpl. rewrite Hm. reflexivity. }
+    rewrite (bind_eq _ _ _ _ _ H3). eexists. eexists. reflexivity.
+  Qed.
+
+  Theorem f_nft_burn_succeeds i s t m v :
+    i_value i = 0%Z -> (3 <= alen (i_args i))%N -> i_caller i = i_rcpt i -> i_snd i = true ->
+    (g_ESDTNFTBurn G <= i_gas i)%N ->
+    has_role E s (i_caller i) (argn i 0) C.ESDTRoleNFTBurn = true ->
+    nft_entry_usable i s t m v -> (bigZ (argn i 2) <= v)%Z ->
+    exists o s', f_nft_burn E i s = (Ok o, s').
+  Proof.
+    intros Hv Hl Hcr Hsnd Hg Hrole Hent Hq. unfold f_nft_burn. cbv zeta.
+    assert (L2 : (2 <= alen (i_args i))%N) by lia.
+    rewrite (bind_eq _ _ _ _ _ (check_create_burn_add_succeeds i _ s Hv L2 Hcr Hsnd Hg)).
+    rewrite (bind_eq _ _ _ _ _ (guard_true _ _ _ (le_negb_ltb _ _ Hl))).
+    assert (L0 : (0 < alen (i_args i))%N) by lia. assert (L1 : (1 < alen (i_args i))%N) by lia.
+    assert (L2' : (2 < alen (i_args i))%N) by lia.
+    rewrite (bind_eq _ _ _ _ _ (arg_argn_succeeds i 0 s L0)). argnorm.
+    destruct (check_allowed_succeeds E _ _ _ _ s Hnf Hsnd Hrole) as (s1 & H1).
+    rewrite (bind_eq _ _ _ _ _ H1). apply check_allowed_ok in H1 as (_ & _ & Hrd1).
+    rewrite (bind_eq _ _ _ _ _ (arg_argn_succeeds i 1 s1 L1)). argnorm.
+    destruct (nft_lookup_succeeds i s s1 t m v Hrd1 Hent) as (s2 & H2 & Hrd2 & Hn0).
+    rewrite (bind_eq _ _ _ _ _ (guard_true _ _ _ (f_equal negb Hn0))).
+    rewrite (bind_eq _ _ _ _ _ H2).
+    destruct Hent as (Hn & Ht & Hm & Hval & Hfp).
+    rewrite (bind_eq _ _ _ _ _ (val_of_succeeds _ _ s2 Hval)).
+    rewrite (bind_eq _ _ _ _ _ (arg_argn_succeeds i 2 s2 L2')). argnorm.
+    assert (G1 : negb (v <? bigZ (argn i 2))%Z = true) by (destruct (v <? bigZ (argn i 2))%Z eqn:E1; [lia|reflexivity]).
+    rewrite (bind_eq _ _ _ _ _ (guard_true _ _ _ G1)).
+    destruct (nft_store_succeeds i s s2 t m v (set_value t (Some (v - bigZ (argn i 2))%Z)) (v - bigZ (argn i 2))%Z Hrd2
+                (conj Hn (conj Ht (conj Hm (conj Hval Hfp))))) as (b & s3 & H3); try reflexivity.
+    { unfold tok_nonce. simpl. rewrite Hm. reflexivity. }
+    rewrite (bind_eq _ _ _ _ _ H3). eexists. eexists. reflexivity.
+  Qed.
+
+  Theorem f_nft_add_uri_succeeds i s t m v :
+    i_value i = 0%Z -> (3 <= alen (i_args i))%N -> i_caller i = i_rcpt i -> i_snd i = true ->
+    (g_ESDTNFTAddURI G <= i_gas i)%N -> (u64 (g_ESDTNFTAddURI G + add_uri_store E i) <= i_gas i)%N ->
+    has_role E s (i_caller i) (argn i 0) C.ESDTRoleNFTAddURI = true ->
+    nft_entry_usable i s t m v ->
+    exists o s', f_nft_add_uri E i s = (Ok o, s').
+  Proof.
+    intros Hv Hl Hcr Hsnd Hg0 Hg Hrole Hent. unfold f_nft_add_uri. cbv zeta.
+    assert (L2 : (2 <= alen (i_args i))%N) by lia.
+    rewrite (bind_eq _ _ _ _ _ (check_create_burn_add_succeeds i _ s Hv L2 Hcr Hsnd Hg0)).
+    rewrite (bind_eq _ _ _ _ _ (guard_true _ _ _ (le_negb_ltb _ _ Hl))).
+    assert (L0 : (0 < alen (i_args i))%N) by lia. assert (L1 : (1 < alen (i_args i))%N) by lia.
+    rewrite (bind_eq _ _ _ _ _ (arg_argn_succeeds i 0 s L0)). argnorm.
+    destruct (check_allowed_succeeds E _ _ _ _ s Hnf Hsnd Hrole) as (s1 & H1).
+    rewrite (bind_eq _ _ _ _ _ H1). apply check_allowed_ok in H1 as (_ & _ & Hrd1).
+    rewrite (bind_eq _ _ _ _ _ (args_from_succeeds (i_args i) 2 s1 L2)). argnorm.
+    fold (add_uri_store E i). rewrite (bind_eq _ _ _ _ _ (guard_true _ _ _ (le_negb_ltb _ _ Hg))).
+    rewrite (bind_eq _ _ _ _ _ (arg_argn_succeeds i 1 s1 L1)). argnorm.
+    destruct (nft_lookup_succeeds i s s1 t m v Hrd1 Hent) as (s2 & H2 & Hrd2 & Hn0).
+    rewrite (bind_eq _ _ _ _ _ (guard_true _ _ _ (f_equal negb Hn0))).
+    rewrite (bind_eq _ _ _ _ _ H2).
+    destruct Hent as (Hn & Ht & Hm & Hval & Hfp).
+    rewrite (bind_eq _ _ _ _ _ (meta_of_succeeds _ _ s2 Hm)).
+    destruct (nft_store_succeeds i s s2 t m v (set_meta t (Some (set_uris m (md_uris m ++ skipn 2 (i_args i))))) v Hrd2
+                (conj Hn (conj Ht (conj Hm (conj Hval Hfp))))) as (b & s3 & H3); try reflexivity.
+    { exact Hval. }
+    rewrite (bind_eq _ _ _ _ _ H3). eexists. eexists. reflexivity.
+  Qed.
+
+  Theorem f_nft_update_attributes_succeeds i s t m v :
+    i_value i = 0%Z -> alen (i_args i) = 3%N -> i_caller i = i_rcpt i -> i_snd i = true ->
+    (g_ESDTNFTUpdateAttributes G <= i_gas i)%N ->
+    (u64 (g_ESDTNFTUpdateAttributes G + update_attributes_store E i) <= i_gas i)%N ->
+    has_role E s (i_caller i) (argn i 0) C.ESDTRoleNFTUpdateAttributes = true ->
+    nft_entry_usable i s t m v ->
+    exists o s', f_nft_update_attributes E i s = (Ok o, s').
+  Proof.
+    intros Hv Hl Hcr Hsnd Hg0 Hg Hrole Hent. unfold f_nft_update_attributes. cbv zeta.
+    assert (L2 : (2 <= alen (i_args i))%N) by lia.
+    rewrite (bind_eq _ _ _ _ _ (check_create_burn_add_succeeds i _ s Hv L2 Hcr Hsnd Hg0)).
+    assert (G0 : (alen (i_args i) =? 3)%N = true) by lia.
+    rewrite (bind_eq _ _ _ _ _ (guard_true _ _ _ G0)).
+    assert (L0 : (0 < alen (i_args i))%N) by lia. assert (L1 : (1 < alen (i_args i))%N) by lia.
+    assert (L2' : (2 < alen (i_args i))%N) by lia.
+    rewrite (bind_eq _ _ _ _ _ (arg_argn_succeeds i 0 s L0)). argnorm.
+    destruct (check_allowed_succeeds E _ _ _ _ s Hnf Hsnd Hrole) as (s1 & H1).
+    rewrite (bind_eq _ _ _ _ _ H1). apply check_allowed_ok in H1 as (_ & _ & Hrd1).
+    rewrite (bind_eq _ _ _ _ _ (arg_argn_succeeds i 2 s1 L2')). argnorm.
+    fold (update_attributes_store E i). rewrite (bind_eq _ _ _ _ _ (guard_true _ _ _ (le_negb_ltb _ _ Hg))).
+    rewrite (bind_eq _ _ _ _ _ (arg_argn_succeeds i 1 s1 L1)). argnorm.
+    destruct (nft_lookup_succeeds i s s1 t m v Hrd1 Hent) as (s2 & H2 & Hrd2 & Hn0).
+    rewrite (bind_eq _ _ _ _ _ (guard_true _ _ _ (f_equal negb Hn0))).
+    rewrite (bind_eq _ _ _ _ _ H2).
+    destruct Hent as (Hn & Ht & Hm & Hval & Hfp).
+    rewrite (bind_eq _ _ _ _ _ (meta_of_succeeds _ _ s2 Hm)).
+    destruct (nft_store_succeeds i s s2 t m v (set_meta t (Some (set_attributes m (argn i 2)))) v Hrd2
+                (conj Hn (conj Ht (conj Hm (conj Hval Hfp))))) as (b & s3 & H3); try reflexivity.
+    { exact Hval. }
+    rewrite (bind_eq _ _ _ _ _ H3). eexists. eexists. reflexivity.
+  Qed.
+End Liveness.
+
+(* supply_common_guards depends on all eight <f>_spec lemmas *)
+Print Assumptions supply_common_guards.
+Print Assumptions supply_balance_effect.
+Print Assumptions supply_shard_total.
+Print Assumptions supply_overdraft_fails.
+Print Assumptions supply_requires_role.
+Print Assumptions supply_frozen_paused.
+Print Assumptions supply_footprint.
+Print Assumptions supply_counter_unchanged.
+Print Assumptions supply_other_entries_unchanged.
+Print Assumptions create_records_metadata.
+Print Assumptions add_uri_effect.
+Print Assumptions update_attributes_effect.
+Print Assumptions supply_metadata_preserved.
+Print Assumptions f_local_mint_succeeds.
+Print Assumptions f_esdt_burn_succeeds.
+Print Assumptions f_nft_create_succeeds.
+Print Assumptions f_nft_burn_succeeds.
+Print Assumptions f_nft_update_attributes_succeeds.
